@@ -1135,3 +1135,1635 @@ Proof.
       * intros [He|[He|[]]]; [left; exact He|right; symmetry; exact He].
       * intros [He|He]; [left; exact He|right; left; symmetry; exact He].
 Qed.
+
+(* ------------------------------------------------------------------------------------------- *)
+(* list_to_dag: what a successful run has built; relations with a cycle are refused *)
+
+Definition HasEdge (b : bld) (pn cn : str) : Prop :=
+  exists i j, In (i, j) (b_edges b) /\ i < bsize b /\ j < bsize b /\ bname b i = pn /\ bname b j = cn.
+
+Lemma HasEdge_ext b b' pn cn : bext b b' -> HasEdge b pn cn -> HasEdge b' pn cn.
+Proof.
+  intros X [i [j [H [Hi [Hj [E1 E2]]]]]]. exists i, j.
+  destruct (bext_name b b' i X Hi) as [N1 S1]. destruct (bext_name b b' j X Hj) as [N2 S2].
+  split; [apply (proj2 X); exact H|]. rewrite N1, N2. tauto.
+Qed.
+
+Lemma bname_inj b i j : BInv b -> i < bsize b -> j < bsize b -> bname b i = bname b j -> i = j.
+Proof.
+  intros I Hi Hj E. assert (N := bi_nodup_n b I). rewrite (NoDup_nth (b_names b) []) in N.
+  apply N; assumption.
+Qed.
+
+Lemma list_step_spec b last r b' last' :
+  Good b -> list_step (Ret (b, last)) r = Ret (b', last') ->
+  Good b' /\ bext b b' /\ HasEdge b' (fst r) (snd r)
+  /\ (forall e, In e (b_edges b') -> In e (b_edges b) \/ (bname b' (fst e) = fst r /\ bname b' (snd e) = snd r))
+  /\ (forall i, i < bsize b' -> i < bsize b \/ bname b' i = fst r \/ bname b' i = snd r)
+  /\ exists p, last' = Some p.
+Proof.
+  intros G H. unfold list_step in H.
+  destruct (b_get_or_new b (fst r) []) as [b1 p] eqn:E1.
+  destruct (b_get_or_new b1 (snd r) []) as [b2 c] eqn:E2.
+  destruct (set_parent1 b2 c p) as [b3|e] eqn:E3; [|discriminate].
+  inversion H; subst b' last'. clear H.
+  destruct (b_get_or_new_spec b _ _ _ _ G E1) as [G1 [X1 [Ed1 [Hp Np]]]].
+  destruct (b_get_or_new_spec b1 _ _ _ _ G1 E2) as [G2 [X2 [Ed2 [Hc Nc]]]].
+  destruct (bext_name b1 b2 p X2 Hp) as [Np2 Hp2].
+  destruct (set_parent1_spec b2 c p b3 G2 Hc Hp2 E3) as [G3 [Nm3 [Ed3 _]]].
+  assert (X3 : bext b2 b3).
+  { split; [exists []; rewrite app_nil_r; exact Nm3|]. intros e He. apply Ed3. left. exact He. }
+  assert (S3 : bsize b3 = bsize b2) by (unfold bsize; rewrite Nm3; reflexivity).
+  assert (N3 : forall i, bname b3 i = bname b2 i) by (intros i; unfold bname; rewrite Nm3; reflexivity).
+  split; [exact G3|]. split; [eapply bext_trans; [exact X1|eapply bext_trans; eauto]|].
+  split.
+  { exists p, c. split; [apply Ed3; right; reflexivity|]. rewrite S3, !N3, Np2. tauto. }
+  split.
+  { intros e He. apply Ed3 in He as [He| ->].
+    - left. rewrite Ed2, Ed1 in He. exact He.
+    - right. cbn. rewrite !N3, Np2. tauto. }
+  split; [|exists p; reflexivity].
+  intros i Hi. rewrite S3 in Hi. rewrite N3.
+  (* where does node i come from *)
+  unfold b_get_or_new, b_lookup in E1, E2.
+  destruct (sindex (fst r) (b_names b)) eqn:L1.
+  - inversion E1; subst b1 p.
+    destruct (sindex (snd r) (b_names b)) eqn:L2.
+    + inversion E2; subst b2 c. left. exact Hi.
+    + unfold b_new in E2. inversion E2; subst b2 c. unfold bsize, bname in *. cbn in *.
+      rewrite app_length in Hi. cbn in Hi.
+      destruct (Nat.eq_dec i (length (b_names b))) as [->|Hne]; [|left; lia].
+      right. right. rewrite app_nth2 by lia. rewrite Nat.sub_diag. reflexivity.
+  - unfold b_new in E1. inversion E1; subst b1 p. cbn in E2.
+    destruct (sindex (snd r) (b_names b ++ [fst r])) eqn:L2.
+    + inversion E2; subst b2 c. unfold bsize, bname in *. cbn in *.
+      rewrite app_length in Hi. cbn in Hi.
+      destruct (Nat.eq_dec i (length (b_names b))) as [->|Hne]; [|left; lia].
+      right. left. rewrite app_nth2 by lia. rewrite Nat.sub_diag. reflexivity.
+    + unfold b_new in E2. inversion E2; subst b2 c. unfold bsize, bname in *. cbn in *.
+      rewrite !app_length in Hi. cbn in Hi.
+      destruct (Nat.lt_ge_cases i (length (b_names b))) as [Hlt|Hge]; [left; exact Hlt|].
+      right. destruct (Nat.eq_dec i (length (b_names b))) as [->|Hne].
+      * left. rewrite app_nth1 by (rewrite app_length; cbn; lia).
+        rewrite app_nth2 by lia. rewrite Nat.sub_diag. reflexivity.
+      * right. assert (i = length (b_names b ++ [fst r])) as -> by (rewrite app_length; cbn; lia).
+        rewrite app_nth2 by lia. rewrite Nat.sub_diag. reflexivity.
+Qed.
+
+Lemma fold_list_raise rel e : fold_left list_step rel (Raise e) = Raise e.
+Proof. induction rel as [|r rel IH]; [reflexivity|exact IH]. Qed.
+
+Lemma fold_list_spec rel : forall b last b' last',
+  Good b -> fold_left list_step rel (Ret (b, last)) = Ret (b', last') ->
+  Good b' /\ bext b b' /\ (forall r, In r rel -> HasEdge b' (fst r) (snd r))
+  /\ (forall e, In e (b_edges b') -> In e (b_edges b) \/ In (bname b' (fst e), bname b' (snd e)) rel)
+  /\ (forall i, i < bsize b' -> i < bsize b \/ exists r, In r rel /\ (bname b' i = fst r \/ bname b' i = snd r))
+  /\ (rel <> [] -> exists p, last' = Some p).
+Proof.
+  induction rel as [|r rel IH]; intros b last b' last' G H; cbn [fold_left] in H.
+  - inversion H; subst. split; [exact G|]. split; [apply bext_refl|]. split; [intros r []|].
+    split; [intros e He; left; exact He|]. split; [intros i Hi; left; exact Hi|]. intros N. contradiction.
+  - destruct (list_step (Ret (b, last)) r) as [[b1 l1]|e] eqn:E; [|rewrite fold_list_raise in H; discriminate].
+    destruct (list_step_spec b last r b1 l1 G E) as [G1 [X1 [HE1 [Ed1 [Nd1 [p1 L1]]]]]].
+    destruct (IH b1 l1 b' last' G1 H) as [G' [X' [HE' [Ed' [Nd' L']]]]].
+    split; [exact G'|]. split; [eapply bext_trans; eauto|]. split.
+    { intros r0 [<-|Hr]; [eapply HasEdge_ext; eauto|apply HE'; exact Hr]. }
+    split.
+    { intros e He. destruct (Ed' e He) as [He1|Hr]; [|right; right; exact Hr].
+      destruct (Ed1 e He1) as [He0|[N1 N2]]; [left; exact He0|]. right. left.
+      destruct G1 as [I1 _]. destruct e as [i j]. cbn in *.
+      destruct (bi_range b1 I1 i j He1) as [Ri Rj].
+      destruct (bext_name b1 b' i X' Ri) as [Ei _]. destruct (bext_name b1 b' j X' Rj) as [Ej _].
+      rewrite Ei, Ej, N1, N2. destruct r; reflexivity. }
+    split.
+    { intros i Hi. destruct (Nd' i Hi) as [Hi1|[r0 [Hr0 Hn]]].
+      - destruct (Nd1 i Hi1) as [Hi0|Hn]; [left; exact Hi0|]. right. exists r. split; [left; reflexivity|].
+        destruct (bext_name b1 b' i X' Hi1) as [Ei _]. rewrite Ei. exact Hn.
+      - right. exists r0. split; [right; exact Hr0|exact Hn]. }
+    intros _. destruct rel as [|r' rel'].
+    + cbn in H. inversion H. exists p1. congruence.
+    + apply L'. discriminate.
+Qed.
+
+Lemma good_empty : Good b_empty.
+Proof.
+  assert (I : BInv b_empty).
+  { constructor; cbn; [intros p c []|constructor|constructor]. }
+  split; [exact I|]. intros y HR.
+  assert (E : forall u v, ~ Edge (b_dag b_empty) u v).
+  { intros u v He. apply (b_edge b_empty u v I) in He. exact He. }
+  inversion HR as [a b He|a c b He _]; subst; exact (E _ _ He).
+Qed.
+
+Lemma nreach_built b rel s t :
+  BInv b -> (forall r, In r rel -> HasEdge b (fst r) (snd r)) -> NReach rel s t ->
+  exists i j, i < bsize b /\ j < bsize b /\ bname b i = s /\ bname b j = t /\ Reach (b_dag b) i j.
+Proof.
+  intros I HE HR. induction HR as [a b0 Hin|a c b0 Hin HR IH].
+  - destruct (HE _ Hin) as [i [j [He [Hi [Hj [E1 E2]]]]]]. cbn in E1, E2.
+    exists i, j. repeat split; try assumption. apply Reach1. apply (b_edge b i j I). exact He.
+  - destruct (HE _ Hin) as [i [j [He [Hi [Hj [E1 E2]]]]]]. cbn in E1, E2.
+    destruct IH as [j' [k [Hj' [Hk [E3 [E4 HR']]]]]].
+    assert (j = j') by (apply (bname_inj b); try assumption; congruence). subst j'.
+    exists i, k. repeat split; try assumption.
+    eapply ReachS; [apply (b_edge b i j I); exact He|exact HR'].
+Qed.
+
+Theorem list_cycle_refused rel : HasCycle rel -> forall r, list_to_dag rel <> Ret r.
+Proof.
+  intros [s HC] [b last] H. unfold list_to_dag in H. destruct rel as [|r0 rel0]; [discriminate|].
+  destruct (fold_list_spec (r0 :: rel0) b_empty None b last good_empty H) as [[I AC] [_ [HE _]]].
+  destruct (nreach_built b (r0 :: rel0) s s I HE HC) as [i [j [Hi [Hj [E1 [E2 HR]]]]]].
+  assert (i = j) by (apply (bname_inj b); try assumption; congruence). subst j.
+  exact (AC i HR).
+Qed.
+
+Lemma sreach_le_sound rel : forall k a b, sreach_le k rel a b = true -> a = b \/ NReach rel a b.
+Proof.
+  induction k as [|k IH]; intros a b H; cbn [sreach_le] in H.
+  - left. apply str_eqb_eq. exact H.
+  - destruct (str_eqb a b) eqn:E; [left; apply str_eqb_eq; exact E|].
+    apply existsb_exists in H as [[p c] [Hin H]]. cbn in H.
+    destruct (str_eqb p a) eqn:E2; [|discriminate]. apply str_eqb_eq in E2. subst p.
+    right. destruct (IH c b H) as [->|HR]; [apply NR1; exact Hin|eapply NRS; eauto].
+Qed.
+
+Lemma has_cycle_sound rel : has_cycle rel = true -> HasCycle rel.
+Proof.
+  unfold has_cycle. intros H. apply existsb_exists in H as [[p c] [Hin H]]. cbn in H.
+  exists p. destruct (sreach_le_sound rel _ c p H) as [->|HR]; [apply NR1; exact Hin|eapply NRS; eauto].
+Qed.
+
+(* ------------------------------------------------------------------------------------------- *)
+(* list_to_dag on the relation list of an acyclic graph never trips the loop guard *)
+
+Section ListRoundTrip.
+  Variable g : dag.
+  Variable r : id -> nat.
+  Hypothesis WF : Wf g.
+  Hypothesis RK : Ranked g r.
+  Hypothesis DN : DistinctNames g.
+  Variable L : list (str * str).
+  Hypothesis LG : forall pn cn, In (pn, cn) L -> exists p c, Edge g p c /\ pn = name g p /\ cn = name g c.
+
+  Definition Emb (b : bld) : Prop :=
+    (forall e, In e (b_edges b) -> In (bname b (fst e), bname b (snd e)) L)
+    /\ (forall i, i < bsize b -> exists q, In q L /\ (bname b i = fst q \/ bname b i = snd q)).
+
+  Lemma emb_reach b i j : BInv b -> Emb b -> Reach (b_dag b) i j ->
+    exists p c, name g p = bname b i /\ name g c = bname b j /\ Reach g p c /\ p < dsize g /\ c < dsize g.
+  Proof.
+    intros I [E1 _] HR. induction HR as [i j He|i k j He HR IH].
+    - apply (b_edge b i j I) in He. apply E1 in He. cbn in He.
+      destruct (LG _ _ He) as [p [c [Hg [N1 N2]]]]. exists p, c.
+      destruct (edge_range g WF p c Hg) as [Rp Rc].
+      repeat split; try (symmetry; assumption); try assumption. apply Reach1. exact Hg.
+    - apply (b_edge b i k I) in He. apply E1 in He. cbn in He.
+      destruct (LG _ _ He) as [p [q [Hg [N1 N2]]]].
+      destruct IH as [p' [c [M1 [M2 [HR' [Rp' Rc]]]]]].
+      destruct (edge_range g WF p q Hg) as [Rp Rq].
+      assert (q = p') by (apply DN; try assumption; congruence). subst p'.
+      exists p, c. repeat split; try (symmetry; assumption); try assumption.
+      eapply ReachS; eauto.
+  Qed.
+
+  Lemma get_or_new_nodes b nm a b' i :
+    b_get_or_new b nm a = (b', i) -> forall k, k < bsize b' -> k < bsize b \/ bname b' k = nm.
+  Proof.
+    unfold b_get_or_new, b_lookup. destruct (sindex nm (b_names b)).
+    - intros H. inversion H; subst. intros k Hk. left. exact Hk.
+    - unfold b_new. intros H. inversion H; subst. unfold bsize, bname. cbn. intros k Hk.
+      rewrite app_length in Hk. cbn in Hk.
+      destruct (Nat.eq_dec k (length (b_names b))) as [->|Hne]; [|left; lia].
+      right. rewrite app_nth2 by lia. rewrite Nat.sub_diag. reflexivity.
+  Qed.
+
+  Lemma get_or_new_emb b nm a b' i :
+    Good b -> Emb b -> (exists q, In q L /\ (nm = fst q \/ nm = snd q)) ->
+    b_get_or_new b nm a = (b', i) -> Emb b'.
+  Proof.
+    intros G [E1 E2] Hq H.
+    destruct (b_get_or_new_spec b nm a b' i G H) as [G' [X [Ed _]]].
+    split.
+    - intros e He. rewrite Ed in He. destruct e as [u v].
+      destruct (bi_range b (proj1 G) u v He) as [Ru Rv]. cbn.
+      destruct (bext_name b b' u X Ru) as [Eu _]. destruct (bext_name b b' v X Rv) as [Ev _].
+      rewrite Eu, Ev. apply (E1 (u, v) He).
+    - intros k Hk. destruct (get_or_new_nodes b nm a b' i H k Hk) as [Hk0|Hn].
+      + destruct (bext_name b b' k X Hk0) as [Ek _]. rewrite Ek. apply E2. exact Hk0.
+      + destruct Hq as [q [Hq1 Hq2]]. exists q. split; [exact Hq1|]. rewrite Hn. exact Hq2.
+  Qed.
+
+  Lemma list_step_ok b last q :
+    Good b -> Emb b -> In q L ->
+    exists b' l', list_step (Ret (b, last)) q = Ret (b', l') /\ Emb b'.
+  Proof.
+    intros G E Hq. unfold list_step.
+    destruct (b_get_or_new b (fst q) []) as [b1 p] eqn:E1.
+    destruct (b_get_or_new b1 (snd q) []) as [b2 c] eqn:E2.
+    destruct (b_get_or_new_spec b _ _ _ _ G E1) as [G1 [X1 [Ed1 [Hp Np]]]].
+    assert (Em1 : Emb b1).
+    { eapply get_or_new_emb; [exact G|exact E| |exact E1]. exists q. split; [exact Hq|left; reflexivity]. }
+    destruct (b_get_or_new_spec b1 _ _ _ _ G1 E2) as [G2 [X2 [Ed2 [Hc Nc]]]].
+    assert (Em2 : Emb b2).
+    { eapply get_or_new_emb; [exact G1|exact Em1| |exact E2]. exists q. split; [exact Hq|right; reflexivity]. }
+    destruct (bext_name b1 b2 p X2 Hp) as [Np2 Hp2].
+    destruct q as [pn cn]. cbn [fst snd] in *.
+    destruct (LG pn cn Hq) as [p0 [c0 [Hg [N1 N2]]]].
+    destruct (edge_range g WF p0 c0 Hg) as [Rp0 Rc0].
+    destruct (set_parent1 b2 c p) as [b3|e] eqn:E3.
+    - exists b3, (Some p). split; [reflexivity|].
+      destruct (set_parent1_spec b2 c p b3 G2 Hc Hp2 E3) as [G3 [Nm3 [Ed3 _]]].
+      assert (N3 : forall i, bname b3 i = bname b2 i) by (intros i; unfold bname; rewrite Nm3; reflexivity).
+      assert (S3 : bsize b3 = bsize b2) by (unfold bsize; rewrite Nm3; reflexivity).
+      destruct Em2 as [A1 A2]. split.
+      + intros e He. rewrite !N3. apply Ed3 in He as [He| ->]; [apply A1; exact He|].
+        cbn. rewrite Np2, Np, Nc. exact Hq.
+      + intros i Hi. rewrite N3. apply A2. rewrite <- S3. exact Hi.
+    - exfalso. unfold set_parent1 in E3.
+      destruct (Nat.eqb p c) eqn:Q1.
+      + apply Nat.eqb_eq in Q1. subst c.
+        assert (p0 = c0) by (apply DN; try assumption; congruence). subst c0.
+        exact (Ranked_no_loop g r p0 RK Hg).
+      + destruct (memb c (ancestors (b_dag b2) p)) eqn:Q2.
+        * apply memb_In in Q2. apply (ancestors_sound (b_dag b2) (b_wf b2 (proj1 G2))) in Q2.
+          destruct (emb_reach b2 c p (proj1 G2) Em2 Q2) as [c' [p' [M1 [M2 [HR [Rc' Rp']]]]]].
+          assert (c' = c0) by (apply DN; try assumption; congruence).
+          assert (p' = p0) by (apply DN; try assumption; congruence). subst c' p'.
+          apply (Ranked_irrefl g r p0 RK). eapply ReachS; eauto.
+        * destruct (memb p (b_parents b2 c)); discriminate.
+  Qed.
+
+  Lemma fold_list_ok rel : incl rel L -> forall b last, Good b -> Emb b ->
+    exists b' l', fold_left list_step rel (Ret (b, last)) = Ret (b', l').
+  Proof.
+    induction rel as [|q rel IH]; intros Hin b last G E.
+    - exists b, last. reflexivity.
+    - cbn [fold_left].
+      destruct (list_step_ok b last q G E (Hin q (or_introl eq_refl))) as [b1 [l1 [H1 E1]]].
+      rewrite H1. destruct (list_step_spec b last q b1 l1 G H1) as [G1 _].
+      apply IH; [intros z Hz; apply Hin; right; exact Hz|exact G1|exact E1].
+  Qed.
+End ListRoundTrip.
+
+Lemma incident_edge g y :
+  Wf g -> WeaklyConnected g -> (exists p c, Edge g p c) -> y < dsize g ->
+  exists p c, Edge g p c /\ (y = p \/ y = c).
+Proof.
+  intros WF WC [p0 [c0 He]] Hy. destruct (edge_range g WF p0 c0 He) as [Rp _].
+  assert (HU := WC p0 y Rp Hy). inversion HU as [a|a c b HU' Hadj]; subst.
+  - exists y, c0. split; [exact He|left; reflexivity].
+  - destruct Hadj as [H|H]; [exists c, y|exists y, c]; split; try exact H; tauto.
+Qed.
+
+Theorem roundtrip_list g r x :
+  Wf g -> Ranked g r -> DistinctNames g -> WeaklyConnected g -> x < dsize g -> (exists p c, Edge g p c) ->
+  exists b ret, list_to_dag (dag_to_list g x) = Ret (b, Some ret)
+    /\ SameNames g (b_names b)
+    /\ NoDup (b_edges b)
+    /\ (forall pn cn, HasEdge b pn cn <-> exists p c, Edge g p c /\ pn = name g p /\ cn = name g c).
+Proof.
+  intros WF RK DN WC Hx HE.
+  destruct (list_edges_exact g r x WF RK DN WC Hx) as [LE _].
+  set (rel := dag_to_list g x) in *.
+  assert (LG : forall pn cn, In (pn, cn) rel -> exists p c, Edge g p c /\ pn = name g p /\ cn = name g c).
+  { intros pn cn H. apply LE. exact H. }
+  assert (Em0 : Emb rel b_empty).
+  { split; [intros e []|intros i Hi; unfold bsize in Hi; cbn in Hi; lia]. }
+  destruct (fold_list_ok g r WF RK DN rel LG rel (incl_refl _) b_empty None good_empty Em0) as [b [l H]].
+  destruct (fold_list_spec rel b_empty None b l good_empty H) as [[I AC] [_ [HE' [Ed' [Nd' L']]]]].
+  assert (NE : rel <> []).
+  { destruct HE as [p [c He]]. intros E.
+    assert (Hin : In (name g p, name g c) rel) by (apply LE; exists p, c; tauto).
+    rewrite E in Hin. exact Hin. }
+  destruct (L' NE) as [ret ->].
+  exists b, ret. split.
+  { unfold list_to_dag. destruct rel as [|q rel']; [contradiction|exact H]. }
+  split.
+  { split; [apply (bi_nodup_n b I)|]. intros s. split.
+    - intros Hs. apply (In_nth _ _ []) in Hs as [i [Hi Es]].
+      destruct (Nd' i Hi) as [H0|[[pn cn] [Hq Hn]]]; [unfold bsize in H0; cbn in H0; lia|].
+      destruct (LG pn cn Hq) as [p [c [He [-> ->]]]]. destruct (edge_range g WF p c He) as [Rp Rc].
+      unfold bname in Hn. subst s. cbn in Hn.
+      destruct Hn as [Hn|Hn]; [exists p|exists c]; (split; [assumption|symmetry; exact Hn]).
+    - intros [y [Hy <-]]. destruct (incident_edge g y WF WC HE Hy) as [p [c [He Hor]]].
+      assert (Hin : In (name g p, name g c) rel) by (apply LE; exists p, c; tauto).
+      destruct (HE' _ Hin) as [i [j [_ [Hi [Hj [E1 E2]]]]]]. cbn in E1, E2.
+      destruct Hor as [->| ->]; [rewrite <- E1|rewrite <- E2]; apply nth_In; assumption. }
+  split; [apply (bi_nodup_e b I)|].
+  intros pn cn. split.
+  - intros [i [j [Hin [Hi [Hj [<- <-]]]]]]. destruct (Ed' (i, j) Hin) as [[]|Hr]. cbn in Hr.
+    apply LG. exact Hr.
+  - intros [p [c [He [-> ->]]]]. apply (HE' (name g p, name g c)). apply LE. exists p, c. tauto.
+Qed.
+
+(* ------------------------------------------------------------------------------------------- *)
+(* dict_to_dag / dataframe_to_dag: the same table invariants, hence the same refusal of cycles *)
+
+Lemma no_cycle_in_built b rel :
+  Good b -> (forall q, In q rel -> HasEdge b (fst q) (snd q)) -> ~ HasCycle rel.
+Proof.
+  intros [I AC] HE [s HC].
+  destruct (nreach_built b rel s s I HE HC) as [i [j [Hi [Hj [E1 [E2 HR]]]]]].
+  assert (i = j) by (apply (bname_inj b); try assumption; congruence). subst j.
+  exact (AC i HR).
+Qed.
+
+Lemma set_attrs_good b x a :
+  Good b -> Good (b_set_attrs b x a) /\ bext b (b_set_attrs b x a)
+            /\ bsize (b_set_attrs b x a) = bsize b /\ (forall i, bname (b_set_attrs b x a) i = bname b i).
+Proof.
+  intros [I AC].
+  assert (I' : BInv (b_set_attrs b x a)).
+  { constructor; cbn; [apply (bi_range b I)|apply (bi_nodup_e b I)|apply (bi_nodup_n b I)]. }
+  split; [split; [exact I'|]|].
+  - apply (acyclic_same_edges b _ I I'); [intros e He; exact He|exact AC].
+  - split; [split; [exists []; cbn; rewrite app_nil_r; reflexivity|apply incl_refl]|].
+    split; [reflexivity|intros i; reflexivity].
+Qed.
+
+Lemma link_spec b c pn b' last last' :
+  Good b -> c < bsize b -> dict_parent_step c (Ret (b, last)) pn = Ret (b', last') ->
+  Good b' /\ bext b b' /\ HasEdge b' pn (bname b c).
+Proof.
+  intros G Hc H. unfold dict_parent_step in H.
+  destruct (b_get_or_new b pn []) as [b1 p] eqn:E1.
+  destruct (set_parent1 b1 c p) as [b2|e] eqn:E2; [|discriminate]. inversion H; subst b' last'. clear H.
+  destruct (b_get_or_new_spec b _ _ _ _ G E1) as [G1 [X1 [Ed1 [Hp Np]]]].
+  destruct (bext_name b b1 c X1 Hc) as [Nc1 Hc1].
+  destruct (set_parent1_spec b1 c p b2 G1 Hc1 Hp E2) as [G2 [Nm2 [Ed2 _]]].
+  assert (X2 : bext b1 b2).
+  { split; [exists []; rewrite app_nil_r; exact Nm2|]. intros e He. apply Ed2. left. exact He. }
+  split; [exact G2|]. split; [exact (bext_trans _ _ _ X1 X2)|].
+  exists p, c. split; [apply Ed2; right; reflexivity|].
+  assert (S2 : bsize b2 = bsize b1) by (unfold bsize; rewrite Nm2; reflexivity).
+  assert (N2 : forall i, bname b2 i = bname b1 i) by (intros i; unfold bname; rewrite Nm2; reflexivity).
+  rewrite S2, !N2, Nc1. tauto.
+Qed.
+
+Lemma fold_parent_raise c ps e : fold_left (dict_parent_step c) ps (Raise e) = Raise e.
+Proof. induction ps as [|p ps IH]; [reflexivity|exact IH]. Qed.
+
+Lemma fold_parent_spec c ps : forall b last b' last',
+  Good b -> c < bsize b -> fold_left (dict_parent_step c) ps (Ret (b, last)) = Ret (b', last') ->
+  Good b' /\ bext b b' /\ forall pn, In pn ps -> HasEdge b' pn (bname b c).
+Proof.
+  induction ps as [|pn ps IH]; intros b last b' last' G Hc H; cbn [fold_left] in H.
+  - inversion H; subst. split; [exact G|]. split; [apply bext_refl|intros pn []].
+  - destruct (dict_parent_step c (Ret (b, last)) pn) as [[b1 l1]|e] eqn:E;
+      [|rewrite fold_parent_raise in H; discriminate].
+    destruct (link_spec b c pn b1 last l1 G Hc E) as [G1 [X1 HE1]].
+    destruct (bext_name b b1 c X1 Hc) as [Nc1 Hc1].
+    destruct (IH b1 l1 b' last' G1 Hc1 H) as [G' [X' HE']].
+    split; [exact G'|]. split; [exact (bext_trans _ _ _ X1 X')|].
+    intros q [<-|Hq]; [eapply HasEdge_ext; eauto|]. rewrite <- Nc1. apply HE'. exact Hq.
+Qed.
+
+Definition entry_parents (e : dentry) : list str := match de_parents e with Some ps => ps | None => [] end.
+
+Lemma dict_entry_spec b last e b' last' :
+  Good b -> dict_entry_step (Ret (b, last)) e = Ret (b', last') ->
+  Good b' /\ bext b b' /\ forall pn, In pn (entry_parents e) -> HasEdge b' pn (de_name e).
+Proof.
+  intros G H. unfold dict_entry_step in H.
+  destruct (existsb (fun kv => reserved (fst kv)) (de_attrs e)); [discriminate|].
+  fold (entry_parents e) in H.
+  destruct (b_lookup b (de_name e)) as [i|] eqn:EL.
+  - assert (E0 : b_get_or_new b (de_name e) [] = (b, i)) by (unfold b_get_or_new; rewrite EL; reflexivity).
+    destruct (b_get_or_new_spec b _ _ _ _ G E0) as [_ [_ [_ [Hi Ni]]]].
+    destruct (set_attrs_good b i (de_attrs e) G) as [G1 [X1 [S1 N1]]].
+    assert (Hi1 : i < bsize (b_set_attrs b i (de_attrs e))) by (rewrite S1; exact Hi).
+    destruct (fold_parent_spec i (entry_parents e) _ last b' last' G1 Hi1 H) as [G' [X' HE']].
+    split; [exact G'|]. split; [exact (bext_trans _ _ _ X1 X')|].
+    intros pn Hpn. rewrite <- Ni, <- N1. apply HE'. exact Hpn.
+  - destruct (b_new b (de_name e) (attrs_update [] (de_attrs e))) as [b1 c] eqn:EN.
+    assert (E0 : b_get_or_new b (de_name e) (attrs_update [] (de_attrs e)) = (b1, c))
+      by (unfold b_get_or_new; rewrite EL; exact EN).
+    destruct (b_get_or_new_spec b _ _ _ _ G E0) as [G1 [X1 [_ [Hc Nc]]]].
+    destruct (fold_parent_spec c (entry_parents e) b1 last b' last' G1 Hc H) as [G' [X' HE']].
+    split; [exact G'|]. split; [exact (bext_trans _ _ _ X1 X')|].
+    intros pn Hpn. rewrite <- Nc. apply HE'. exact Hpn.
+Qed.
+
+Lemma fold_entry_raise d e : fold_left dict_entry_step d (Raise e) = Raise e.
+Proof. induction d as [|x d IH]; [reflexivity|exact IH]. Qed.
+
+Lemma fold_entry_spec d : forall b last b' last',
+  Good b -> fold_left dict_entry_step d (Ret (b, last)) = Ret (b', last') ->
+  Good b' /\ bext b b' /\ forall q, In q (dict_relations d) -> HasEdge b' (fst q) (snd q).
+Proof.
+  induction d as [|e d IH]; intros b last b' last' G H; cbn [fold_left] in H.
+  - inversion H; subst. split; [exact G|]. split; [apply bext_refl|intros q []].
+  - destruct (dict_entry_step (Ret (b, last)) e) as [[b1 l1]|x] eqn:E;
+      [|rewrite fold_entry_raise in H; discriminate].
+    destruct (dict_entry_spec b last e b1 l1 G E) as [G1 [X1 HE1]].
+    destruct (IH b1 l1 b' last' G1 H) as [G' [X' HE']].
+    split; [exact G'|]. split; [exact (bext_trans _ _ _ X1 X')|].
+    intros q Hq. unfold dict_relations in Hq. cbn [flat_map] in Hq. apply in_app_or in Hq as [Hq|Hq].
+    + apply in_map_iff in Hq as [pn [<- Hpn]]. cbn. eapply HasEdge_ext; [exact X'|].
+      apply HE1. exact Hpn.
+    + apply HE'. exact Hq.
+Qed.
+
+Theorem dict_cycle_refused d : HasCycle (dict_relations d) -> forall r, dict_to_dag d <> Ret r.
+Proof.
+  intros HC [b last] H. unfold dict_to_dag in H. destruct d as [|e0 d0]; [discriminate|].
+  destruct (fold_left dict_entry_step (e0 :: d0) (Ret (b_empty, None))) as [[b1 l1]|x] eqn:E; [|discriminate].
+  destruct (fold_entry_spec (e0 :: d0) b_empty None b1 l1 good_empty E) as [G [_ HE]].
+  exact (no_cycle_in_built b1 _ G HE HC).
+Qed.
+
+Lemma df_row_spec b last rw b' last' :
+  Good b -> df_row_step (Ret (b, last)) rw = Ret (b', last') ->
+  Good b' /\ bext b b' /\ forall pn, dr_parent rw = Some pn -> HasEdge b' pn (dr_name rw).
+Proof.
+  intros G H. unfold df_row_step in H.
+  destruct (b_get_or_new b (dr_name rw) (attrs_update [] (non_null (dr_attrs rw)))) as [b1 c] eqn:E1.
+  destruct (b_get_or_new_spec b _ _ _ _ G E1) as [G1 [X1 [_ [Hc Nc]]]].
+  destruct (set_attrs_good b1 c (non_null (dr_attrs rw)) G1) as [G2 [X2 [S2 N2]]].
+  set (b2 := b_set_attrs b1 c (non_null (dr_attrs rw))) in *.
+  destruct (dr_parent rw) as [pn|] eqn:EP.
+  - destruct (b_get_or_new b2 pn []) as [b3 p] eqn:E3.
+    destruct (set_parent1 b3 c p) as [b4|e] eqn:E4; [|discriminate]. inversion H; subst b' last'. clear H.
+    destruct (b_get_or_new_spec b2 _ _ _ _ G2 E3) as [G3 [X3 [_ [Hp Np]]]].
+    assert (Hc2 : c < bsize b2) by (rewrite S2; exact Hc).
+    destruct (bext_name b2 b3 c X3 Hc2) as [Nc3 Hc3].
+    destruct (set_parent1_spec b3 c p b4 G3 Hc3 Hp E4) as [G4 [Nm4 [Ed4 _]]].
+    assert (X4 : bext b3 b4).
+    { split; [exists []; rewrite app_nil_r; exact Nm4|]. intros e He. apply Ed4. left. exact He. }
+    split; [exact G4|].
+    split; [exact (bext_trans _ _ _ X1 (bext_trans _ _ _ X2 (bext_trans _ _ _ X3 X4)))|].
+    intros pn' Epn. inversion Epn; subst pn'.
+    exists p, c. split; [apply Ed4; right; reflexivity|].
+    assert (S4 : bsize b4 = bsize b3) by (unfold bsize; rewrite Nm4; reflexivity).
+    assert (N4 : forall i, bname b4 i = bname b3 i) by (intros i; unfold bname; rewrite Nm4; reflexivity).
+    rewrite S4, !N4, Nc3, N2, Nc. tauto.
+  - inversion H; subst b' last'. split; [exact G2|]. split; [exact (bext_trans _ _ _ X1 X2)|]. intros pn Epn. discriminate.
+Qed.
+
+Lemma fold_row_raise rows e : fold_left df_row_step rows (Raise e) = Raise e.
+Proof. induction rows as [|x d IH]; [reflexivity|exact IH]. Qed.
+
+Lemma fold_row_spec rows : forall b last b' last',
+  Good b -> fold_left df_row_step rows (Ret (b, last)) = Ret (b', last') ->
+  Good b' /\ bext b b' /\ forall q, In q (df_relations rows) -> HasEdge b' (fst q) (snd q).
+Proof.
+  induction rows as [|rw rows IH]; intros b last b' last' G H; cbn [fold_left] in H.
+  - inversion H; subst. split; [exact G|]. split; [apply bext_refl|intros q []].
+  - destruct (df_row_step (Ret (b, last)) rw) as [[b1 l1]|x] eqn:E;
+      [|rewrite fold_row_raise in H; discriminate].
+    destruct (df_row_spec b last rw b1 l1 G E) as [G1 [X1 HE1]].
+    destruct (IH b1 l1 b' last' G1 H) as [G' [X' HE']].
+    split; [exact G'|]. split; [exact (bext_trans _ _ _ X1 X')|].
+    intros q Hq. unfold df_relations in Hq. cbn [flat_map] in Hq. apply in_app_or in Hq as [Hq|Hq].
+    + destruct (dr_parent rw) as [pn|] eqn:EP; [|contradiction]. destruct Hq as [<-|[]]. cbn.
+      eapply HasEdge_ext; [exact X'|]. apply HE1. reflexivity.
+    + apply HE'. exact Hq.
+Qed.
+
+Theorem df_cycle_refused rows : HasCycle (df_relations rows) -> forall r, dataframe_to_dag rows <> Ret r.
+Proof.
+  intros HC [b last] H. unfold dataframe_to_dag in H. destruct rows as [|r0 rows0]; [discriminate|].
+  destruct (negb (df_consistent (r0 :: rows0))); [discriminate|].
+  destruct (fold_row_spec (r0 :: rows0) b_empty None b last good_empty H) as [G [_ HE]].
+  exact (no_cycle_in_built b _ G HE HC).
+Qed.
+
+(* ------------------------------------------------------------------------------------------- *)
+(* dag_to_dict: one entry per node, holding the node's parents and its requested attributes *)
+
+Lemma dget_dset d e k : dget (dset d e) k = if str_eqb (de_name e) k then Some e else dget d k.
+Proof.
+  induction d as [|x d IH]; cbn.
+  - destruct (str_eqb (de_name e) k); reflexivity.
+  - destruct (str_eqb (de_name x) (de_name e)) eqn:E.
+    + apply str_eqb_eq in E. cbn. destruct (str_eqb (de_name e) k) eqn:E2; [reflexivity|].
+      rewrite E, E2. reflexivity.
+    + cbn. rewrite IH. destruct (str_eqb (de_name x) k) eqn:E3; [|reflexivity].
+      apply str_eqb_eq in E3. subst k. rewrite str_eqb_neq in E.
+      destruct (str_eqb (de_name e) (de_name x)) eqn:E4; [|reflexivity].
+      apply str_eqb_eq in E4. symmetry in E4. contradiction.
+Qed.
+
+Lemma dset_keys d e s : In s (map de_name (dset d e)) <-> In s (map de_name d) \/ s = de_name e.
+Proof.
+  induction d as [|x d IH]; cbn.
+  - split; [intros [<-|[]]; right; reflexivity|intros [[]| ->]; left; reflexivity].
+  - destruct (str_eqb (de_name x) (de_name e)) eqn:E; cbn.
+    + apply str_eqb_eq in E. rewrite E. split; [intros [H|H]; [right; symmetry; exact H|left; right; exact H]|].
+      intros [[H|H]| ->]; [left; exact H|right; exact H|left; reflexivity].
+    + rewrite IH. tauto.
+Qed.
+
+Lemma dset_nodup d e : NoDup (map de_name d) -> NoDup (map de_name (dset d e)).
+Proof.
+  induction d as [|x d IH]; cbn; intros H.
+  - constructor; [intros []|constructor].
+  - destruct (str_eqb (de_name x) (de_name e)) eqn:E; cbn.
+    + apply str_eqb_eq in E. rewrite <- E. exact H.
+    + inversion H as [|? ? Hn Hd]; subst. constructor; [|apply IH; exact Hd].
+      rewrite dset_keys. intros [H1|H1]; [contradiction|].
+      apply str_eqb_neq in E. contradiction.
+Qed.
+
+Lemma dget_in d k e : dget d k = Some e -> In e d /\ de_name e = k.
+Proof.
+  induction d as [|x d IH]; cbn; [discriminate|].
+  destruct (str_eqb (de_name x) k) eqn:E.
+  - intros H. inversion H; subst. apply str_eqb_eq in E. split; [left; reflexivity|exact E].
+  - intros H. destruct (IH H) as [H1 H2]. split; [right; exact H1|exact H2].
+Qed.
+
+Lemma dget_none d k : dget d k = None -> ~ In k (map de_name d).
+Proof.
+  induction d as [|x d IH]; cbn; [intros _ []|].
+  destruct (str_eqb (de_name x) k) eqn:E; [discriminate|]. apply str_eqb_neq in E.
+  intros H [H1|H1]; [contradiction|]. exact (IH H H1).
+Qed.
+
+Section DictExport.
+  Variable g : dag.
+  Variable md : amode.
+  Hypothesis WF : Wf g.
+  Hypothesis DN : DistinctNames g.
+  Hypothesis NL : forall x, ~ Edge g x x.
+
+  Definition ea (y : id) : attrs := export_attrs md (nattrs g y).
+  Definition into (es : list edge) (y : id) : list str :=
+    map (fun e => name g (fst e)) (filter (fun e => Nat.eqb (snd e) y) es).
+  Definition expected (es : list edge) (y : id) : option dentry :=
+    if is_root g y
+    then (if existsb (fun e => Nat.eqb (fst e) y) es then Some (DE (name g y) None (ea y)) else None)
+    else match into es y with [] => None | ps => Some (DE (name g y) (Some ps) (ea y)) end.
+
+  Record DInv (es : list edge) (d : list dentry) : Prop := {
+    di_keys : NoDup (map de_name d);
+    di_names : forall s, In s (map de_name d) -> exists y, y < dsize g /\ name g y = s;
+    di_get : forall y, y < dsize g -> dget d (name g y) = expected es y
+  }.
+
+  Lemma name_eqb y z : y < dsize g -> z < dsize g -> str_eqb (name g y) (name g z) = Nat.eqb y z.
+  Proof.
+    intros Hy Hz. destruct (Nat.eqb y z) eqn:E.
+    - apply Nat.eqb_eq in E. subst. apply str_eqb_refl.
+    - apply Nat.eqb_neq in E. apply str_eqb_neq. intros H. apply E. apply DN; assumption.
+  Qed.
+
+  Lemma into_snoc es p c y :
+    into (es ++ [(p, c)]) y = if Nat.eqb c y then into es y ++ [name g p] else into es y.
+  Proof.
+    unfold into. rewrite filter_app, map_app. cbn. destruct (Nat.eqb c y); cbn; [reflexivity|apply app_nil_r].
+  Qed.
+
+  Lemma not_root_child p c : Edge g p c -> is_root g c = false.
+  Proof.
+    intros He. apply (wf_sym g WF) in He. unfold is_root. destruct (parents g c); [contradiction|reflexivity].
+  Qed.
+
+  Lemma dict_step_inv es d p c :
+    DInv es d -> Edge g p c ->
+    exists d', dict_step g md (Ret d) (p, c) = Ret d' /\ DInv (es ++ [(p, c)]) d'.
+  Proof.
+    intros I He. destruct (edge_range g WF p c He) as [Rp Rc].
+    assert (Hpc : p <> c) by (intros ->; exact (NL c He)).
+    assert (NRc := not_root_child p c He).
+    unfold dict_step. cbn [fst snd].
+    set (d1 := if is_root g p then dset d (DE (name g p) None (ea p)) else d).
+    assert (K1 : NoDup (map de_name d1)).
+    { unfold d1. destruct (is_root g p); [apply dset_nodup|]; apply (di_keys es d I). }
+    assert (N1 : forall s, In s (map de_name d1) -> exists y, y < dsize g /\ name g y = s).
+    { unfold d1. destruct (is_root g p); [|apply (di_names es d I)].
+      intros s Hs. apply dset_keys in Hs as [Hs| ->]; [apply (di_names es d I); exact Hs|].
+      exists p. split; [exact Rp|reflexivity]. }
+    assert (G1 : forall y, y < dsize g -> dget d1 (name g y) =
+                 if is_root g p && Nat.eqb p y then Some (DE (name g p) None (ea p)) else expected es y).
+    { intros y Hy. unfold d1. destruct (is_root g p); cbn [andb]; [|apply (di_get es d I); exact Hy].
+      rewrite dget_dset. cbn [de_name]. rewrite name_eqb by assumption.
+      destruct (Nat.eqb p y); [reflexivity|apply (di_get es d I); exact Hy]. }
+    assert (Gc : dget d1 (name g c) = expected es c).
+    { rewrite G1 by exact Rc. apply Nat.eqb_neq in Hpc. rewrite Hpc, andb_false_r. reflexivity. }
+    fold (ea p) (ea c). fold d1. rewrite Gc.
+    set (newc := DE (name g c) (Some (into es c ++ [name g p])) (ea c)).
+    assert (Hd' : exists d', (match expected es c with
+             | Some en => if truthy en then
+                 match de_parents en with
+                 | Some ps => Ret (dset d1 (DE (de_name en) (Some (ps ++ [name g p])) (de_attrs en)))
+                 | None => Raise KeyError end
+               else Ret (dset d1 (DE (name g c) (Some [name g p]) (ea c)))
+             | None => Ret (dset d1 (DE (name g c) (Some [name g p]) (ea c))) end) = Ret d'
+             /\ d' = dset d1 newc).
+    { unfold expected. rewrite NRc. unfold newc. destruct (into es c) as [|s ps] eqn:EI.
+      - eexists. split; reflexivity.
+      - cbn. eexists. split; reflexivity. }
+    destruct Hd' as [d' [E' ->]]. exists (dset d1 newc). split; [exact E'|].
+    constructor.
+    - apply dset_nodup. exact K1.
+    - intros s Hs. apply dset_keys in Hs as [Hs| ->]; [apply N1; exact Hs|].
+      exists c. split; [exact Rc|reflexivity].
+    - intros y Hy. rewrite dget_dset. unfold newc. cbn [de_name]. rewrite name_eqb by assumption.
+      unfold expected. rewrite into_snoc, existsb_app. cbn [existsb fst].
+      destruct (Nat.eqb c y) eqn:Ecy.
+      + apply Nat.eqb_eq in Ecy. subst y. rewrite NRc.
+        destruct (into es c ++ [name g p]) eqn:EE; [destruct (into es c); discriminate|]. reflexivity.
+      + rewrite G1 by exact Hy. unfold expected.
+        destruct (Nat.eqb p y) eqn:Epy.
+        * apply Nat.eqb_eq in Epy. subst y. rewrite andb_true_r. cbn [orb].
+          destruct (is_root g p) eqn:Rt; [rewrite orb_true_r; reflexivity|reflexivity].
+        * rewrite andb_false_r. cbn [orb]. rewrite orb_false_r. reflexivity.
+  Qed.
+
+  Lemma dict_fold_inv : forall es2 es1 d,
+    DInv es1 d -> (forall e, In e es2 -> Edge g (fst e) (snd e)) ->
+    exists d', fold_left (dict_step g md) es2 (Ret d) = Ret d' /\ DInv (es1 ++ es2) d'.
+  Proof.
+    induction es2 as [|[p c] es2 IH]; intros es1 d I HE.
+    - exists d. rewrite app_nil_r. split; [reflexivity|exact I].
+    - cbn [fold_left]. destruct (dict_step_inv es1 d p c I (HE (p, c) (or_introl eq_refl))) as [d1 [E1 I1]].
+      rewrite E1. destruct (IH (es1 ++ [(p, c)]) d1 I1 (fun e He => HE e (or_intror He))) as [d' [E' I']].
+      exists d'. split; [exact E'|]. rewrite <- app_assoc in I'. exact I'.
+  Qed.
+
+  Lemma dinv_nil : DInv [] [].
+  Proof.
+    constructor; cbn; [constructor|intros s []|].
+    intros y Hy. unfold expected, into. cbn. destruct (is_root g y); reflexivity.
+  Qed.
+End DictExport.
+
+Theorem dict_nodes_edges_attrs g r x md :
+  Wf g -> Ranked g r -> DistinctNames g -> WeaklyConnected g -> x < dsize g -> (exists p c, Edge g p c) ->
+  exists d, dag_to_dict g x md = Ret d
+    /\ NoDup (map de_name d)
+    /\ (forall s, In s (map de_name d) <-> exists y, y < dsize g /\ name g y = s)
+    /\ (forall y, y < dsize g -> exists e, In e d /\ de_name e = name g y
+          /\ de_attrs e = export_attrs md (nattrs g y)
+          /\ (parents g y = [] -> de_parents e = None)
+          /\ (parents g y <> [] -> exists ps, de_parents e = Some ps /\ NoDup ps
+                /\ forall s, In s ps <-> exists p, In p (parents g y) /\ s = name g p)).
+Proof.
+  intros WF RK DN WC Hx HE.
+  assert (NL : forall y, ~ Edge g y y) by (intros y; apply (Ranked_no_loop g r y RK)).
+  set (es := dag_iterator g x).
+  assert (S : forall e, In e es -> Edge g (fst e) (snd e)).
+  { intros [p c] H. apply (iter_sound g WF x p c H). }
+  destruct (dict_fold_inv g md WF DN NL es [] [] (dinv_nil g md) S) as [d [E I]].
+  cbn [app] in I. exists d. split; [exact E|]. split; [apply (di_keys g md es d I)|].
+  assert (Ent : forall y, y < dsize g -> exists e, dget d (name g y) = Some e /\ expected g md es y = Some e).
+  { intros y Hy. rewrite (di_get g md es d I y Hy).
+    destruct (incident_edge g y WF WC HE Hy) as [p [c [He Hor]]].
+    assert (Hin : In (p, c) es) by (apply iter_complete; assumption).
+    unfold expected. destruct (is_root g y) eqn:Rt.
+    - destruct Hor as [->| ->].
+      + assert (Ex : existsb (fun e => Nat.eqb (fst e) p) es = true).
+        { apply existsb_exists. exists (p, c). split; [exact Hin|apply Nat.eqb_refl]. }
+        rewrite Ex. eexists. split; reflexivity.
+      + rewrite (not_root_child g WF p c He) in Rt. discriminate.
+    - destruct (into g es y) as [|s ps] eqn:EI; [|eexists; split; reflexivity].
+      exfalso. unfold is_root in Rt. destruct (parents g y) as [|q qs] eqn:EP; [discriminate|].
+      assert (Hq : Edge g q y) by (apply (wf_sym g WF); rewrite EP; left; reflexivity).
+      assert (Hin' : In (q, y) es) by (apply iter_complete; assumption).
+      unfold into in EI. apply map_eq_nil in EI.
+      assert (In (q, y) (filter (fun e => Nat.eqb (snd e) y) es)).
+      { apply filter_In. split; [exact Hin'|apply Nat.eqb_refl]. }
+      rewrite EI in H. exact H. }
+  split.
+  { intros s. split; [apply (di_names g md es d I)|].
+    intros [y [Hy <-]]. destruct (Ent y Hy) as [e [Hg _]]. apply dget_in in Hg as [H1 H2].
+    rewrite <- H2. apply in_map. exact H1. }
+  intros y Hy. destruct (Ent y Hy) as [e [Hg Hx']]. apply dget_in in Hg as [H1 H2].
+  exists e. split; [exact H1|]. split; [exact H2|].
+  unfold expected in Hx'. unfold is_root in Hx'.
+  destruct (parents g y) as [|q qs] eqn:EP.
+  - destruct (existsb (fun e0 => Nat.eqb (fst e0) y) es); [|discriminate]. inversion Hx'; subst e. cbn.
+    split; [reflexivity|]. split; [reflexivity|]. intros N. contradiction.
+  - destruct (into g es y) as [|s0 ps0] eqn:EI; [discriminate|]. inversion Hx'; subst e. cbn.
+    split; [reflexivity|]. split; [intros N; discriminate|]. intros _.
+    exists (s0 :: ps0). split; [reflexivity|]. rewrite <- EI. split.
+    + unfold into. apply NoDup_map_inj_in; [|apply NoDup_filter; apply (iter_nodup g WF x)].
+      intros [p1 c1] [p2 c2] A1 A2 En. apply filter_In in A1 as [A1 B1]. apply filter_In in A2 as [A2 B2].
+      cbn in *. apply Nat.eqb_eq in B1, B2. subst c1 c2.
+      apply S in A1. apply S in A2. cbn in *.
+      destruct (edge_range g WF p1 y A1) as [R1 _]. destruct (edge_range g WF p2 y A2) as [R2 _].
+      f_equal. apply DN; assumption.
+    + intros s. unfold into. rewrite in_map_iff. split.
+      * intros [[p c] [<- A]]. apply filter_In in A as [A B]. cbn in B. apply Nat.eqb_eq in B. subst c. cbn [fst].
+        exists p. split; [|reflexivity]. change (In p (q :: qs)). rewrite <- EP. apply (wf_sym g WF). apply (S (p, y) A).
+      * intros [p [Hp ->]]. exists (p, y). split; [reflexivity|]. apply filter_In. split; [|apply Nat.eqb_refl].
+        apply iter_complete; try assumption. apply (wf_sym g WF). rewrite EP. exact Hp.
+Qed.
+
+(* ------------------------------------------------------------------------------------------- *)
+(* attribute dictionaries and list updates *)
+
+Lemma list_upd_length {A} (l : list A) i f : length (list_upd l i f) = length l.
+Proof. revert i; induction l as [|x l IH]; intros [|i]; cbn; try reflexivity. rewrite IH. reflexivity. Qed.
+
+Lemma nth_list_upd_same {A} (l : list A) i f d : i < length l -> nth i (list_upd l i f) d = f (nth i l d).
+Proof.
+  revert i; induction l as [|x l IH]; intros [|i] H; cbn in *; try lia; [reflexivity|]. apply IH. lia.
+Qed.
+
+Lemma nth_list_upd_other {A} (l : list A) i k f d : k <> i -> nth k (list_upd l i f) d = nth k l d.
+Proof.
+  revert i k; induction l as [|x l IH]; intros [|i] [|k] H; cbn; try reflexivity; try lia.
+  apply IH. lia.
+Qed.
+
+Lemma attr_set_notin l k v : ~ In k (map fst l) -> attr_set l k v = l ++ [(k, v)].
+Proof.
+  induction l as [|[k' v'] l IH]; cbn; intros H; [reflexivity|].
+  destruct (str_eqb k' k) eqn:E; [apply str_eqb_eq in E; subst; exfalso; apply H; left; reflexivity|].
+  rewrite IH; [reflexivity|]. intros Hin. apply H. right. exact Hin.
+Qed.
+
+Lemma attrs_update_fresh a : forall x,
+  NoDup (map fst a) -> (forall k, In k (map fst a) -> ~ In k (map fst x)) -> attrs_update x a = x ++ a.
+Proof.
+  unfold attrs_update. induction a as [|[k v] a IH]; intros x ND HF; cbn.
+  - rewrite app_nil_r. reflexivity.
+  - inversion ND as [|? ? Hn Hd]; subst. rewrite attr_set_notin by (apply HF; left; reflexivity).
+    rewrite IH; [rewrite <- app_assoc; reflexivity|exact Hd|].
+    intros k' Hk'. rewrite map_app, in_app_iff. cbn. intros [H|[H|[]]].
+    + apply (HF k'); [right; exact Hk'|exact H].
+    + subst. contradiction.
+Qed.
+
+Lemma attrs_update_nil a : NoDup (map fst a) -> attrs_update [] a = a.
+Proof. intros H. apply attrs_update_fresh; [exact H|intros k _ []]. Qed.
+
+Lemma attr_set_same l k v : NoDup (map fst l) -> In (k, v) l -> attr_set l k v = l.
+Proof.
+  induction l as [|[k' v'] l IH]; cbn; intros ND Hin; [contradiction|].
+  inversion ND as [|? ? Hn Hd]; subst.
+  destruct (str_eqb k' k) eqn:E.
+  - apply str_eqb_eq in E. subst k'. destruct Hin as [Hin|Hin]; [inversion Hin; reflexivity|].
+    exfalso. apply Hn. apply in_map_iff. exists (k, v). split; [reflexivity|exact Hin].
+  - apply str_eqb_neq in E. destruct Hin as [Hin|Hin]; [inversion Hin; subst; contradiction|].
+    rewrite IH; [reflexivity|exact Hd|exact Hin].
+Qed.
+
+Lemma attrs_update_incl a : forall l, NoDup (map fst l) -> incl a l -> attrs_update l a = l.
+Proof.
+  unfold attrs_update. induction a as [|[k v] a IH]; intros l ND HI; cbn; [reflexivity|].
+  rewrite attr_set_same; [|exact ND|apply HI; left; reflexivity].
+  apply IH; [exact ND|]. intros x Hx. apply HI. right. exact Hx.
+Qed.
+
+Lemma attrs_update_idem a : NoDup (map fst a) -> attrs_update a a = a.
+Proof. intros H. apply attrs_update_incl; [exact H|apply incl_refl]. Qed.
+
+Lemma NoDup_map_filter {A B} (f : A -> B) p l : NoDup (map f l) -> NoDup (map f (filter p l)).
+Proof.
+  induction l as [|x l IH]; cbn; intros H; [constructor|].
+  inversion H as [|? ? Hn Hd]; subst. destruct (p x); cbn; [|apply IH; exact Hd].
+  constructor; [|apply IH; exact Hd].
+  intros Hin. apply Hn. apply in_map_iff in Hin as [y [E Hy]]. apply filter_In in Hy as [Hy _].
+  apply in_map_iff. exists y. split; assumption.
+Qed.
+
+Lemma non_null_idem a : non_null (non_null a) = non_null a.
+Proof.
+  unfold non_null. induction a as [|[k v] a IH]; cbn; [reflexivity|].
+  destruct v; cbn; rewrite ?IH; reflexivity.
+Qed.
+
+(* ------------------------------------------------------------------------------------------- *)
+(* rebuilding from relations that are edges of an acyclic graph g with distinct names: the loop
+   guard never fires, every table node is a node of g, every table edge is a listed relation, and
+   the attributes of the touched nodes are the given ones *)
+
+Section Rebuild.
+  Variable g : dag.
+  Variable r : id -> nat.
+  Hypothesis WF : Wf g.
+  Hypothesis RK : Ranked g r.
+  Hypothesis DN : DistinctNames g.
+  Variable L : list (str * str).
+  Hypothesis LG : forall pn cn, In (pn, cn) L -> exists p c, Edge g p c /\ pn = name g p /\ cn = name g c.
+  Variable A : str -> attrs.                       (* the attributes the input gives to a name *)
+  Hypothesis AND : forall s, NoDup (map fst (A s)).
+
+  Definition NodeName (s : str) : Prop := exists y, y < dsize g /\ name g y = s.
+
+  Definition Emb2 (b : bld) : Prop :=
+    (forall e, In e (b_edges b) -> In (bname b (fst e), bname b (snd e)) L)
+    /\ (forall i, i < bsize b -> NodeName (bname b i)).
+
+  Definition AInv (done : list str) (b : bld) : Prop :=
+    length (b_attrs b) = bsize b
+    /\ incl done (b_names b)
+    /\ forall i, i < bsize b ->
+         (In (bname b i) done -> nth i (b_attrs b) [] = A (bname b i))
+         /\ (~ In (bname b i) done -> nth i (b_attrs b) [] = []).
+
+  Definition RInv (done : list str) (b : bld) : Prop := Good b /\ Emb2 b /\ AInv done b.
+
+  Lemma emb2_reach b i j : BInv b -> Emb2 b -> Reach (b_dag b) i j ->
+    exists p c, name g p = bname b i /\ name g c = bname b j /\ Reach g p c /\ p < dsize g /\ c < dsize g.
+  Proof.
+    intros I [E1 _] HR. induction HR as [i j He|i k j He HR IH].
+    - apply (b_edge b i j I) in He. apply E1 in He. cbn in He.
+      destruct (LG _ _ He) as [p [c [Hg [N1 N2]]]]. exists p, c.
+      destruct (edge_range g WF p c Hg) as [Rp Rc].
+      repeat split; try (symmetry; assumption); try assumption. apply Reach1. exact Hg.
+    - apply (b_edge b i k I) in He. apply E1 in He. cbn in He.
+      destruct (LG _ _ He) as [p [q [Hg [N1 N2]]]].
+      destruct IH as [p' [c [M1 [M2 [HR' [Rp' Rc]]]]]].
+      destruct (edge_range g WF p q Hg) as [Rp Rq].
+      assert (q = p') by (apply DN; try assumption; congruence). subst p'.
+      exists p, c. repeat split; try (symmetry; assumption); try assumption.
+      eapply ReachS; eauto.
+  Qed.
+
+  Lemma AInv_equiv done done' b : (forall s, In s done <-> In s done') -> AInv done b -> AInv done' b.
+  Proof.
+    intros EQ [A1 [A2 A3]]. split; [exact A1|]. split.
+    - intros s Hs. apply A2. apply EQ. exact Hs.
+    - intros i Hi. destruct (A3 i Hi) as [B1 B2]. split.
+      + intros H. apply B1. apply EQ. exact H.
+      + intros H. apply B2. intros H'. apply H. apply EQ. exact H'.
+  Qed.
+
+  (* node_dict.get(nm, node_type(nm)): a possibly new node without attributes *)
+  Lemma R_get_parent done b nm b' i :
+    RInv done b -> NodeName nm -> b_get_or_new b nm [] = (b', i) ->
+    RInv done b' /\ bext b b' /\ b_edges b' = b_edges b /\ i < bsize b' /\ bname b' i = nm.
+  Proof.
+    intros [G [[E1 E2] [A1 [A2 A3]]]] HN H.
+    destruct (b_get_or_new_spec b nm [] b' i G H) as [G' [X [Ed [Hi Ni]]]].
+    split; [|tauto]. split; [exact G'|].
+    unfold b_get_or_new, b_lookup in H. destruct (sindex nm (b_names b)) as [j|] eqn:EL.
+    - inversion H; subst. split; [split; assumption|]. split; [exact A1|]. split; assumption.
+    - apply sindex_none in EL. unfold b_new in H. inversion H; subst b' i. clear H.
+      split.
+      + split.
+        * intros e He. cbn in He. destruct e as [u v]. destruct (bi_range b (proj1 G) u v He) as [Ru Rv].
+          destruct (bext_name b _ u X Ru) as [Eu _]. destruct (bext_name b _ v X Rv) as [Ev _].
+          cbn [fst snd]. rewrite Eu, Ev. apply (E1 (u, v) He).
+        * intros k Hk. unfold bsize in Hk. cbn in Hk. rewrite app_length in Hk. cbn in Hk.
+          destruct (Nat.eq_dec k (length (b_names b))) as [->|Hne].
+          { unfold bname. cbn. rewrite app_nth2 by lia. rewrite Nat.sub_diag. exact HN. }
+          { assert (Hk0 : k < bsize b) by (unfold bsize; lia).
+            destruct (bext_name b _ k X Hk0) as [Ek _]. rewrite Ek. apply E2. exact Hk0. }
+      + split; [unfold bsize; cbn; rewrite !app_length; cbn; unfold bsize in A1; lia|].
+        split; [intros s Hs; cbn; apply in_or_app; left; apply A2; exact Hs|].
+        intros k Hk. unfold bsize in Hk. cbn in Hk. rewrite app_length in Hk. cbn in Hk.
+        unfold bname. cbn.
+        destruct (Nat.eq_dec k (length (b_names b))) as [->|Hne].
+        * rewrite app_nth2 by lia. rewrite Nat.sub_diag. cbn.
+          rewrite app_nth2 by (unfold bsize in A1; lia). unfold bsize in A1. rewrite A1, Nat.sub_diag. cbn.
+          split; [|reflexivity]. intros Hd. exfalso. apply EL. apply A2. exact Hd.
+        * assert (Hk0 : k < bsize b) by (unfold bsize; lia).
+          rewrite app_nth1 by (unfold bsize in Hk0; exact Hk0).
+          rewrite app_nth1 by (unfold bsize in *; lia). apply A3. exact Hk0.
+  Qed.
+
+  (* child.parents = [parent] for a listed relation: accepted *)
+  Lemma R_link done b c p :
+    RInv done b -> c < bsize b -> p < bsize b -> In (bname b p, bname b c) L ->
+    exists b', set_parent1 b c p = Ret b' /\ RInv done b' /\ bext b b'
+               /\ b_names b' = b_names b /\ In (p, c) (b_edges b').
+  Proof.
+    intros [G [Em [A1 [A2 A3]]]] Hc Hp HL.
+    destruct (LG _ _ HL) as [p0 [c0 [Hg [N1 N2]]]].
+    destruct (edge_range g WF p0 c0 Hg) as [Rp0 Rc0].
+    destruct (set_parent1 b c p) as [b3|e] eqn:E3.
+    - exists b3. split; [reflexivity|].
+      destruct (set_parent1_spec b c p b3 G Hc Hp E3) as [G3 [Nm3 [Ed3 _]]].
+      assert (N3 : forall i, bname b3 i = bname b i) by (intros i; unfold bname; rewrite Nm3; reflexivity).
+      assert (S3 : bsize b3 = bsize b) by (unfold bsize; rewrite Nm3; reflexivity).
+      assert (At3 : b_attrs b3 = b_attrs b).
+      { unfold set_parent1 in E3. destruct (Nat.eqb p c); [discriminate|].
+        destruct (memb c (ancestors (b_dag b) p)); [discriminate|].
+        destruct (memb p (b_parents b c)); inversion E3; reflexivity. }
+      split; [|split; [|split; [exact Nm3|apply Ed3; right; reflexivity]]].
+      + split; [exact G3|]. destruct Em as [E1 E2]. split; [split|].
+        * intros e He. rewrite !N3. apply Ed3 in He as [He| ->]; [apply E1; exact He|exact HL].
+        * intros i Hi. rewrite N3. apply E2. rewrite <- S3. exact Hi.
+        * split; [rewrite At3, S3; exact A1|]. split; [rewrite Nm3; exact A2|].
+          intros i Hi. rewrite At3, N3. apply A3. rewrite <- S3. exact Hi.
+      + split; [exists []; rewrite app_nil_r; exact Nm3|]. intros e He. apply Ed3. left. exact He.
+    - exfalso. unfold set_parent1 in E3.
+      destruct (Nat.eqb p c) eqn:Q1.
+      + apply Nat.eqb_eq in Q1. subst c.
+        assert (p0 = c0) by (apply DN; try assumption; congruence). subst c0.
+        exact (Ranked_no_loop g r p0 RK Hg).
+      + destruct (memb c (ancestors (b_dag b) p)) eqn:Q2.
+        * apply memb_In in Q2. apply (ancestors_sound (b_dag b) (b_wf b (proj1 G))) in Q2.
+          destruct (emb2_reach b c p (proj1 G) Em Q2) as [c' [p' [M1 [M2 [HR [Rc' Rp']]]]]].
+          assert (c' = c0) by (apply DN; try assumption; congruence).
+          assert (p' = p0) by (apply DN; try assumption; congruence). subst c' p'.
+          apply (Ranked_irrefl g r p0 RK). eapply ReachS; eauto.
+        * destruct (memb p (b_parents b c)); discriminate.
+  Qed.
+
+  (* setting the attributes A nm on node c named nm whose attributes are [] or already A nm *)
+  Lemma R_set_attrs done b c :
+    RInv done b -> c < bsize b ->
+    RInv (bname b c :: done) (b_set_attrs b c (A (bname b c))).
+  Proof.
+    intros [G [[E1 E2] [A1 [A2 A3]]]] Hc.
+    destruct (set_attrs_good b c (A (bname b c)) G) as [G1 [X1 [S1 N1]]].
+    split; [exact G1|]. split.
+    - split; [intros e He; rewrite !N1; apply E1; exact He|].
+      intros i Hi. rewrite N1. apply E2. rewrite <- S1. exact Hi.
+    - split; [cbn; rewrite list_upd_length; exact A1|].
+      split.
+      { intros s [<-|Hs]; [apply nth_In; exact Hc|apply A2; exact Hs]. }
+      intros i Hi. rewrite S1 in Hi. rewrite N1. cbn [b_set_attrs b_attrs].
+      destruct (Nat.eq_dec i c) as [->|Hne].
+      + rewrite nth_list_upd_same by (rewrite A1; exact Hc). split.
+        * intros _. destruct (A3 c Hc) as [B1 B2].
+          destruct (In_dec_str (bname b c) done) as [Hd|Hd].
+          { rewrite (B1 Hd). apply attrs_update_idem. apply AND. }
+          { rewrite (B2 Hd). apply attrs_update_nil. apply AND. }
+        * intros Hn. exfalso. apply Hn. left. reflexivity.
+      + rewrite nth_list_upd_other by exact Hne. destruct (A3 i Hi) as [B1 B2]. split.
+        * intros [Hd|Hd]; [|apply B1; exact Hd].
+          exfalso. apply Hne. apply (bname_inj b i c (proj1 G)); [exact Hi|exact Hc|symmetry; exact Hd].
+        * intros Hn. apply B2. intros Hd. apply Hn. right. exact Hd.
+  Qed.
+
+  (* a possibly new node created with attributes attrs_update [] (A nm) *)
+  Lemma R_get_child done b nm b' i :
+    RInv done b -> NodeName nm -> b_get_or_new b nm (attrs_update [] (A nm)) = (b', i) ->
+    bext b b' /\ i < bsize b' /\ bname b' i = nm
+    /\ RInv (nm :: done) (b_set_attrs b' i (A nm)).
+  Proof.
+    intros R HN H.
+    destruct R as [G [[E1 E2] [A1 [A2 A3]]]].
+    destruct (b_get_or_new_spec b nm _ b' i G H) as [G' [X [Ed [Hi Ni]]]].
+    split; [exact X|]. split; [exact Hi|]. split; [exact Ni|].
+    unfold b_get_or_new, b_lookup in H. destruct (sindex nm (b_names b)) as [j|] eqn:EL.
+    - inversion H; subst b' j. rewrite <- Ni. apply R_set_attrs; [|exact Hi].
+      split; [exact G|]. split; [split; assumption|]. split; [exact A1|]. split; assumption.
+    - (* new node: first look at it as created without attributes, then set them *)
+      apply sindex_none in EL.
+      assert (H0 : b_get_or_new b nm [] = (BLD (b_names b ++ [nm]) (b_attrs b ++ [[]]) (b_edges b), length (b_names b))).
+      { unfold b_get_or_new, b_lookup. destruct (sindex nm (b_names b)) eqn:EL'; [|reflexivity].
+        apply sindex_some in EL' as [L1 L2]. exfalso. apply EL. rewrite <- L2. apply nth_In. exact L1. }
+      unfold b_new in H. inversion H; subst b' i. clear H.
+      assert (R0 : RInv done b).
+      { split; [exact G|]. split; [split; assumption|]. split; [exact A1|]. split; assumption. }
+      destruct (R_get_parent done b nm _ _ R0 HN H0) as [R1 [_ [_ [Hi1 Ni1]]]].
+      set (b1 := BLD (b_names b ++ [nm]) (b_attrs b ++ [[]]) (b_edges b)) in *.
+      assert (R2 := R_set_attrs done b1 (length (b_names b)) R1 Hi1).
+      rewrite Ni1 in R2.
+      (* the two tables coincide *)
+      assert (EQ : b_set_attrs (BLD (b_names b ++ [nm]) (b_attrs b ++ [attrs_update [] (A nm)]) (b_edges b))
+                     (length (b_names b)) (A nm)
+                   = b_set_attrs b1 (length (b_names b)) (A nm)).
+      { unfold b_set_attrs, b1. cbn. f_equal.
+        assert (LL : length (b_attrs b) = length (b_names b)) by exact A1.
+        rewrite <- LL. generalize (b_attrs b). intros l0.
+        induction l0 as [|x l IH]; cbn.
+        - assert (U0 : attrs_update [] (A nm) = A nm) by (apply attrs_update_nil; apply AND).
+          rewrite !U0. rewrite (attrs_update_idem (A nm) (AND nm)). reflexivity.
+        - f_equal. exact IH. }
+      rewrite EQ. exact R2.
+  Qed.
+End Rebuild.
+
+Lemma list_upd_id {A} (l : list A) i f d : f (nth i l d) = nth i l d -> list_upd l i f = l.
+Proof.
+  revert i; induction l as [|x l IH]; intros [|i] H; cbn in *; try reflexivity.
+  - rewrite H. reflexivity.
+  - rewrite IH by exact H. reflexivity.
+Qed.
+
+Lemma dget_of_in d e : NoDup (map de_name d) -> In e d -> dget d (de_name e) = Some e.
+Proof.
+  induction d as [|x d IH]; cbn; intros ND Hin; [contradiction|].
+  inversion ND as [|? ? Hn Hd]; subst. destruct Hin as [->|Hin].
+  - rewrite str_eqb_refl. reflexivity.
+  - destruct (str_eqb (de_name x) (de_name e)) eqn:E; [|apply IH; assumption].
+    apply str_eqb_eq in E. exfalso. apply Hn. rewrite E. apply in_map. exact Hin.
+Qed.
+
+(* ------------------------------------------------------------------------------------------- *)
+(* dict_to_dag on a dictionary whose relations are edges of g *)
+
+Section DictRebuild.
+  Variable g : dag.
+  Variable r : id -> nat.
+  Hypothesis WF : Wf g.
+  Hypothesis RK : Ranked g r.
+  Hypothesis DN : DistinctNames g.
+  Variable L : list (str * str).
+  Hypothesis LG : forall pn cn, In (pn, cn) L -> exists p c, Edge g p c /\ pn = name g p /\ cn = name g c.
+  Variable A : str -> attrs.
+  Hypothesis AND : forall s, NoDup (map fst (A s)).
+
+  Notation RInv := (RInv g L A).
+
+  Lemma dict_parent_ok done b c pn last :
+    RInv done b -> c < bsize b -> In (pn, bname b c) L ->
+    exists b' p, dict_parent_step c (Ret (b, last)) pn = Ret (b', Some p) /\ RInv done b' /\ bext b b'.
+  Proof.
+    intros R Hc HL. unfold dict_parent_step.
+    destruct (b_get_or_new b pn []) as [b1 p] eqn:E1.
+    assert (HN : NodeName g pn).
+    { destruct (LG _ _ HL) as [p0 [c0 [Hg [-> _]]]]. exists p0. split; [|reflexivity].
+      apply (edge_range g WF p0 c0 Hg). }
+    destruct (R_get_parent g L A done b pn b1 p R HN E1) as [R1 [X1 [_ [Hp Np]]]].
+    destruct (bext_name b b1 c X1 Hc) as [Nc1 Hc1].
+    assert (HL1 : In (bname b1 p, bname b1 c) L) by (rewrite Np, Nc1; exact HL).
+    destruct (R_link g r WF RK DN L LG A done b1 c p R1 Hc1 Hp HL1) as [b2 [E2 [R2 [X2 _]]]].
+    rewrite E2. exists b2, p. split; [reflexivity|]. split; [exact R2|exact (bext_trans _ _ _ X1 X2)].
+  Qed.
+
+  Lemma fold_parent_ok done c : forall ps b last,
+    RInv done b -> c < bsize b -> (forall pn, In pn ps -> In (pn, bname b c) L) ->
+    exists b' last', fold_left (dict_parent_step c) ps (Ret (b, last)) = Ret (b', last')
+      /\ RInv done b' /\ bext b b'
+      /\ (ps <> [] -> exists p, last' = Some p) /\ (ps = [] -> last' = last).
+  Proof.
+    induction ps as [|pn ps IH]; intros b last R Hc HL.
+    - exists b, last. split; [reflexivity|]. split; [exact R|]. split; [apply bext_refl|].
+      split; [intros N; contradiction|reflexivity].
+    - cbn [fold_left].
+      destruct (dict_parent_ok done b c pn last R Hc (HL pn (or_introl eq_refl))) as [b1 [p [E1 [R1 X1]]]].
+      rewrite E1. destruct (bext_name b b1 c X1 Hc) as [Nc1 Hc1].
+      destruct (IH b1 (Some p) R1 Hc1) as [b' [last' [E' [R' [X' [L1 L2]]]]]].
+      { intros q Hq. rewrite Nc1. apply HL. right. exact Hq. }
+      exists b', last'. split; [exact E'|]. split; [exact R'|]. split; [exact (bext_trans _ _ _ X1 X')|].
+      split; [|intros N; discriminate]. intros _. destruct ps as [|q ps'].
+      + exists p. apply L2. reflexivity.
+      + apply L1. discriminate.
+  Qed.
+
+  Lemma dict_entry_ok done b last e :
+    RInv done b -> NodeName g (de_name e) -> de_attrs e = A (de_name e) ->
+    existsb (fun kv => reserved (fst kv)) (de_attrs e) = false ->
+    (forall pn, In pn (entry_parents e) -> In (pn, de_name e) L) ->
+    exists b' last', dict_entry_step (Ret (b, last)) e = Ret (b', last')
+      /\ RInv (de_name e :: done) b' /\ bext b b'
+      /\ (entry_parents e <> [] -> exists p, last' = Some p) /\ (entry_parents e = [] -> last' = last).
+  Proof.
+    intros R HN HA HR HL. unfold dict_entry_step. rewrite HR. fold (entry_parents e).
+    assert (Step : exists b1 c, (match b_lookup b (de_name e) with
+                                 | Some i => (b_set_attrs b i (de_attrs e), i)
+                                 | None => b_new b (de_name e) (attrs_update [] (de_attrs e)) end) = (b1, c)
+                   /\ RInv (de_name e :: done) b1 /\ bext b b1 /\ c < bsize b1 /\ bname b1 c = de_name e).
+    { destruct (b_lookup b (de_name e)) as [i|] eqn:EL.
+      - unfold b_lookup in EL. apply sindex_some in EL as [Hi Ni]. fold (bsize b) in Hi. fold (bname b i) in Ni.
+        exists (b_set_attrs b i (de_attrs e)), i. split; [reflexivity|].
+        assert (R1 := R_set_attrs g L A AND done b i R Hi). rewrite Ni in R1. rewrite HA.
+        split; [exact R1|].
+        destruct (set_attrs_good b i (A (de_name e)) (proj1 R)) as [_ [X1 [S1 N1]]].
+        split; [exact X1|]. split; [rewrite S1; exact Hi|rewrite N1; exact Ni].
+      - destruct (b_new b (de_name e) (attrs_update [] (de_attrs e))) as [b1 c] eqn:EN.
+        exists b1, c. split; [reflexivity|].
+        assert (E0 : b_get_or_new b (de_name e) (attrs_update [] (A (de_name e))) = (b1, c)).
+        { unfold b_get_or_new. rewrite EL, <- HA. exact EN. }
+        destruct (R_get_child g L A AND done b (de_name e) b1 c R HN E0) as [X1 [Hc [Nc R1]]].
+        assert (EQ : b_set_attrs b1 c (A (de_name e)) = b1).
+        { unfold b_new in EN. inversion EN; subst b1 c. unfold b_set_attrs. cbn. f_equal.
+          apply (list_upd_id _ _ _ []).
+          destruct R as [_ [_ [A1 _]]]. unfold bsize in A1. rewrite <- A1.
+          rewrite app_nth2 by lia. rewrite Nat.sub_diag. cbn. rewrite HA.
+          rewrite (attrs_update_nil (A (de_name e)) (AND _)). apply attrs_update_idem. apply AND. }
+        rewrite EQ in R1. tauto. }
+    destruct Step as [b1 [c [E1 [R1 [X1 [Hc Nc]]]]]]. rewrite E1.
+    destruct (fold_parent_ok (de_name e :: done) c (entry_parents e) b1 last R1 Hc)
+      as [b' [last' [E' [R' [X' [L1 L2]]]]]].
+    { intros pn Hpn. rewrite Nc. apply HL. exact Hpn. }
+    exists b', last'. split; [exact E'|]. split; [exact R'|]. split; [exact (bext_trans _ _ _ X1 X')|].
+    split; assumption.
+  Qed.
+
+  Lemma fold_entry_ok : forall ents done b last,
+    RInv done b -> NoDup (map de_name ents) ->
+    (forall e, In e ents -> NodeName g (de_name e) /\ de_attrs e = A (de_name e)
+        /\ existsb (fun kv => reserved (fst kv)) (de_attrs e) = false
+        /\ forall pn, In pn (entry_parents e) -> In (pn, de_name e) L) ->
+    exists b' last' done', fold_left dict_entry_step ents (Ret (b, last)) = Ret (b', last')
+      /\ RInv done' b' /\ (forall s, In s done' <-> In s done \/ In s (map de_name ents))
+      /\ ((exists e, In e ents /\ entry_parents e <> []) -> exists p, last' = Some p).
+  Proof.
+    induction ents as [|e ents IH]; intros done b last R ND HC.
+    - exists b, last, done. split; [reflexivity|]. split; [exact R|]. split; [cbn; tauto|].
+      intros [e [[] _]].
+    - cbn [fold_left]. inversion ND as [|? ? Hn Hd]; subst.
+      destruct (HC e (or_introl eq_refl)) as [C1 [C2 [C3 C4]]].
+      destruct (dict_entry_ok done b last e R C1 C2 C3 C4) as [b1 [l1 [E1 [R1 [X1 [L1 L2]]]]]].
+      rewrite E1.
+      destruct (IH (de_name e :: done) b1 l1 R1 Hd (fun e' H' => HC e' (or_intror H')))
+        as [b' [last' [done' [E' [R' [EQ' LS']]]]]].
+      exists b', last', done'. split; [exact E'|]. split; [exact R'|]. split.
+      + intros s. rewrite EQ'. cbn. tauto.
+      + intros [e0 [[<-|H0] HP]].
+        * destruct (L1 HP) as [p ->]. clear - E'.
+          (* once a parent has been linked the returned node stays defined *)
+          revert E'. generalize b1 p. induction ents as [|e1 es IHes]; intros b0 p0 E'.
+          { cbn in E'. inversion E'. exists p0. reflexivity. }
+          { cbn [fold_left] in E'.
+            destruct (dict_entry_step (Ret (b0, Some p0)) e1) as [[b2 l2]|x] eqn:E2;
+              [|rewrite fold_entry_raise in E'; discriminate].
+            assert (exists q, l2 = Some q) as [q ->].
+            { unfold dict_entry_step in E2.
+              destruct (existsb (fun kv => reserved (fst kv)) (de_attrs e1)); [discriminate|].
+              destruct (match b_lookup b0 (de_name e1) with
+                        | Some i => (b_set_attrs b0 i (de_attrs e1), i)
+                        | None => b_new b0 (de_name e1) (attrs_update [] (de_attrs e1)) end) as [b3 c3].
+              revert E2. generalize b3 p0.
+              induction (match de_parents e1 with Some ps => ps | None => [] end) as [|pn ps IHp];
+                intros b4 p4 E2.
+              - cbn in E2. inversion E2. exists p4. reflexivity.
+              - cbn [fold_left] in E2.
+                destruct (dict_parent_step c3 (Ret (b4, Some p4)) pn) as [[b5 l5]|x] eqn:E5;
+                  [|rewrite fold_parent_raise in E2; discriminate].
+                unfold dict_parent_step in E5. destruct (b_get_or_new b4 pn []) as [b6 p6].
+                destruct (set_parent1 b6 c3 p6); [|discriminate]. inversion E5; subst.
+                apply (IHp _ _ E2). }
+            apply (IHes _ _ E'). }
+        * apply LS'. exists e0. split; assumption.
+  Qed.
+End DictRebuild.
+
+Lemma entry_unique d e e' :
+  NoDup (map de_name d) -> In e d -> In e' d -> de_name e = de_name e' -> e = e'.
+Proof.
+  intros ND H1 H2 E. assert (G1 := dget_of_in d e ND H1). assert (G2 := dget_of_in d e' ND H2).
+  rewrite E in G1. rewrite G1 in G2. inversion G2. reflexivity.
+Qed.
+
+Theorem roundtrip_dict g r x md :
+  Wf g -> Ranked g r -> DistinctNames g -> WeaklyConnected g -> x < dsize g -> (exists p c, Edge g p c) ->
+  (forall y, y < dsize g -> NoDup (map fst (export_attrs md (nattrs g y)))) ->
+  (forall y, y < dsize g -> existsb (fun kv => reserved (fst kv)) (export_attrs md (nattrs g y)) = false) ->
+  exists d b ret, dag_to_dict g x md = Ret d /\ dict_to_dag d = Ret (b, Some ret)
+    /\ SameNames g (b_names b)
+    /\ NoDup (b_edges b)
+    /\ (forall pn cn, HasEdge b pn cn <-> exists p c, Edge g p c /\ pn = name g p /\ cn = name g c)
+    /\ length (b_attrs b) = bsize b
+    /\ (forall i y, i < bsize b -> y < dsize g -> bname b i = name g y ->
+          nth i (b_attrs b) [] = export_attrs md (nattrs g y)).
+Proof.
+  intros WF RK DN WC Hx HE KND RES.
+  destruct (dict_nodes_edges_attrs g r x md WF RK DN WC Hx HE) as [d [ED [KD [KN EN]]]].
+  exists d.
+  set (L := dict_relations d).
+  set (A := fun s => match dget d s with Some e => de_attrs e | None => [] end).
+  (* every entry belongs to a node of g *)
+  assert (EY : forall e, In e d -> exists y, y < dsize g /\ de_name e = name g y
+              /\ de_attrs e = export_attrs md (nattrs g y)
+              /\ (forall pn, In pn (entry_parents e) <-> exists p, In p (parents g y) /\ pn = name g p)).
+  { intros e He. assert (Hk : In (de_name e) (map de_name d)) by (apply in_map; exact He).
+    apply KN in Hk as [y [Hy Ny]]. destruct (EN y Hy) as [e' [He' [Ne' [Ae' [P1 P2]]]]].
+    assert (e = e') by (apply (entry_unique d); try assumption; congruence). subst e'.
+    exists y. split; [exact Hy|]. split; [exact Ne'|]. split; [exact Ae'|].
+    intros pn. unfold entry_parents. destruct (parents g y) as [|q qs] eqn:EP.
+    - rewrite (P1 eq_refl). split; [intros []|intros [p [[] _]]].
+    - destruct (P2 ltac:(discriminate)) as [ps [E1 [_ E3]]]. rewrite E1. apply E3. }
+  assert (LG : forall pn cn, In (pn, cn) L -> exists p c, Edge g p c /\ pn = name g p /\ cn = name g c).
+  { intros pn cn H. unfold L, dict_relations in H. apply in_flat_map in H as [e [He H]].
+    apply in_map_iff in H as [pn' [E Hpn]]. inversion E; subst pn' cn.
+    destruct (EY e He) as [y [Hy [Ny [_ PP]]]]. fold (entry_parents e) in Hpn.
+    apply PP in Hpn as [p [Hp ->]]. exists p, y. split; [apply (wf_sym g WF); exact Hp|]. split; [reflexivity|exact Ny]. }
+  assert (LE : forall p c, Edge g p c -> In (name g p, name g c) L).
+  { intros p c He. destruct (edge_range g WF p c He) as [_ Rc].
+    destruct (EN c Rc) as [e [Hin [Ne _]]]. destruct (EY e Hin) as [y [Hy [Ny [_ PP]]]].
+    assert (y = c) by (apply DN; try assumption; congruence). subst y.
+    unfold L, dict_relations. apply in_flat_map. exists e. split; [exact Hin|].
+    apply in_map_iff. exists (name g p). split; [rewrite Ne; reflexivity|].
+    fold (entry_parents e). apply PP. exists p. split; [apply (wf_sym g WF); exact He|reflexivity]. }
+  assert (AE : forall e, In e d -> A (de_name e) = de_attrs e).
+  { intros e He. unfold A. rewrite (dget_of_in d e KD He). reflexivity. }
+  assert (AND : forall s, NoDup (map fst (A s))).
+  { intros s. unfold A. destruct (dget d s) as [e|] eqn:E; [|constructor].
+    apply dget_in in E as [He _]. destruct (EY e He) as [y [Hy [_ [Ae _]]]]. rewrite Ae. apply KND. exact Hy. }
+  assert (R0 : RInv g L A [] b_empty).
+  { split; [exact good_empty|]. split.
+    - split; [intros e []|intros i Hi; unfold bsize in Hi; cbn in Hi; lia].
+    - split; [reflexivity|]. split; [intros s []|intros i Hi; unfold bsize in Hi; cbn in Hi; lia]. }
+  assert (HC : forall e, In e d -> NodeName g (de_name e) /\ de_attrs e = A (de_name e)
+        /\ existsb (fun kv => reserved (fst kv)) (de_attrs e) = false
+        /\ forall pn, In pn (entry_parents e) -> In (pn, de_name e) L).
+  { intros e He. destruct (EY e He) as [y [Hy [Ny [Ae PP]]]].
+    split; [exists y; split; [exact Hy|symmetry; exact Ny]|]. split; [symmetry; apply AE; exact He|].
+    split; [rewrite Ae; apply RES; exact Hy|].
+    intros pn Hpn. unfold L, dict_relations. apply in_flat_map. exists e. split; [exact He|].
+    apply in_map_iff. exists pn. split; [reflexivity|exact Hpn]. }
+  destruct (fold_entry_ok g r WF RK DN L LG A AND d [] b_empty None R0 KD HC)
+    as [b [last [done' [EF [[G [Em [A1 [A2 A3]]]] [EQ LS]]]]]].
+  destruct (fold_entry_spec d b_empty None b last good_empty EF) as [_ [_ HEd]].
+  fold L in HEd.
+  assert (LS' : exists p, last = Some p).
+  { apply LS. destruct HE as [p [c He]]. destruct (edge_range g WF p c He) as [_ Rc].
+    destruct (EN c Rc) as [e [Hin [Ne _]]]. exists e. split; [exact Hin|].
+    destruct (EY e Hin) as [y [Hy [Ny [_ PP]]]].
+    assert (y = c) by (apply DN; try assumption; congruence). subst y.
+    intros N. assert (Hp : In (name g p) (entry_parents e)).
+    { apply PP. exists p. split; [apply (wf_sym g WF); exact He|reflexivity]. }
+    rewrite N in Hp. exact Hp. }
+  destruct LS' as [ret ->]. exists b, ret. split; [exact ED|].
+  split.
+  { unfold dict_to_dag. destruct d as [|e0 d0].
+    - exfalso. destruct HE as [p [c He]]. destruct (edge_range g WF p c He) as [Rp _].
+      destruct (EN p Rp) as [e [[] _]].
+    - rewrite EF. reflexivity. }
+  destruct G as [I AC]. destruct Em as [E1 E2].
+  split.
+  { split; [apply (bi_nodup_n b I)|]. intros s. split.
+    - intros Hs. apply (In_nth _ _ []) in Hs as [i [Hi Es]]. fold (bsize b) in Hi. fold (bname b i) in Es.
+      rewrite <- Es. apply E2. exact Hi.
+    - intros [y [Hy <-]]. destruct (incident_edge g y WF WC HE Hy) as [p [c [He Hor]]].
+      destruct (HEd _ (LE p c He)) as [i [j [_ [Hi [Hj [N1 N2]]]]]]. cbn in N1, N2.
+      destruct Hor as [->| ->]; [rewrite <- N1|rewrite <- N2]; apply nth_In; assumption. }
+  split; [apply (bi_nodup_e b I)|]. split.
+  { intros pn cn. split.
+    - intros [i [j [Hin [Hi [Hj [<- <-]]]]]]. apply LG. apply (E1 (i, j) Hin).
+    - intros [p [c [He [-> ->]]]]. apply (HEd (name g p, name g c)). apply LE. exact He. }
+  split; [exact A1|].
+  intros i y Hi Hy Ni. destruct (A3 i Hi) as [B1 _].
+  destruct (EN y Hy) as [e [Hin [Ne [Ae _]]]].
+  rewrite B1.
+  - rewrite Ni, <- Ne, (AE e Hin). exact Ae.
+  - apply EQ. right. rewrite Ni, <- Ne. apply in_map. exact Hin.
+Qed.
+
+(* ------------------------------------------------------------------------------------------- *)
+(* dag_to_dataframe: one row per edge and per root; dataframe_to_dag on these rows *)
+
+Lemma val_eqb_refl v : val_eqb v v = true.
+Proof.
+  destruct v; cbn; try reflexivity.
+  - apply Z.eqb_refl.
+  - apply str_eqb_refl.
+  - destruct b; reflexivity.
+  - apply Z.eqb_refl.
+Qed.
+
+Lemma attrs_eqb_refl a : attrs_eqb a a = true.
+Proof.
+  induction a as [|[k v] a IH]; cbn; [reflexivity|].
+  rewrite str_eqb_refl, val_eqb_refl, IH. reflexivity.
+Qed.
+
+Lemma row_eqb_refl x : row_eqb x x = true.
+Proof.
+  unfold row_eqb. rewrite str_eqb_refl, attrs_eqb_refl. destruct (dr_parent x); cbn; [rewrite str_eqb_refl|]; reflexivity.
+Qed.
+
+Lemma row_eqb_key x y : row_eqb x y = true -> dr_name x = dr_name y /\ dr_parent x = dr_parent y.
+Proof.
+  unfold row_eqb. intros H. apply andb_true_iff in H as [H _]. apply andb_true_iff in H as [H1 H2].
+  apply str_eqb_eq in H1. split; [exact H1|].
+  destruct (dr_parent x), (dr_parent y); cbn in H2; try discriminate; [|reflexivity].
+  apply str_eqb_eq in H2. subst. reflexivity.
+Qed.
+
+Lemma dd_sub : forall l seen x, In x (drop_duplicates_acc seen l) -> In x l.
+Proof.
+  induction l as [|a l IH]; intros seen x H; cbn in H; [contradiction|].
+  destruct (existsb (row_eqb a) seen); [right; eapply IH; eauto|].
+  destruct H as [<-|H]; [left; reflexivity|right; eapply IH; eauto].
+Qed.
+
+Lemma dd_cover : forall l seen x, In x l ->
+  exists x', (In x' seen \/ In x' (drop_duplicates_acc seen l)) /\ row_eqb x x' = true.
+Proof.
+  induction l as [|a l IH]; intros seen x H; [contradiction|]. cbn.
+  destruct (existsb (row_eqb a) seen) eqn:E.
+  - destruct H as [<-|H].
+    + apply existsb_exists in E as [x' [H1 H2]]. exists x'. split; [left; exact H1|exact H2].
+    + apply IH. exact H.
+  - destruct H as [<-|H].
+    + exists a. split; [right; left; reflexivity|apply row_eqb_refl].
+    + destruct (IH (a :: seen) x H) as [x' [[[<-|H1]|H1] H2]].
+      * exists a. split; [right; left; reflexivity|exact H2].
+      * exists x'. split; [left; exact H1|exact H2].
+      * exists x'. split; [right; right; exact H1|exact H2].
+Qed.
+
+Section DfRebuild.
+  Variable g : dag.
+  Variable r : id -> nat.
+  Hypothesis WF : Wf g.
+  Hypothesis RK : Ranked g r.
+  Hypothesis DN : DistinctNames g.
+  Variable L : list (str * str).
+  Hypothesis LG : forall pn cn, In (pn, cn) L -> exists p c, Edge g p c /\ pn = name g p /\ cn = name g c.
+  Variable A : str -> attrs.
+  Hypothesis AND : forall s, NoDup (map fst (A s)).
+
+  Notation RInv := (RInv g L A).
+  Definition is_some {T} (o : option T) : bool := match o with Some _ => true | None => false end.
+
+  Lemma df_row_ok done b last rw :
+    RInv done b -> NodeName g (dr_name rw) -> non_null (dr_attrs rw) = A (dr_name rw) ->
+    (forall pn, dr_parent rw = Some pn -> In (pn, dr_name rw) L) ->
+    exists b' last', df_row_step (Ret (b, last)) rw = Ret (b', last')
+      /\ RInv (dr_name rw :: done) b' /\ bext b b'
+      /\ (dr_parent rw <> None -> is_some last' = true) /\ (dr_parent rw = None -> last' = last).
+  Proof.
+    intros R HN HA HL. unfold df_row_step. rewrite HA.
+    destruct (b_get_or_new b (dr_name rw) (attrs_update [] (A (dr_name rw)))) as [b1 c] eqn:E1.
+    destruct (R_get_child g L A AND done b (dr_name rw) b1 c R HN E1) as [X1 [Hc [Nc R2]]].
+    set (b2 := b_set_attrs b1 c (A (dr_name rw))) in *.
+    destruct (b_get_or_new_spec b _ _ b1 c (proj1 R) E1) as [G1 _].
+    destruct (set_attrs_good b1 c (A (dr_name rw)) G1) as [_ [X2 [S2 N2]]].
+    assert (Hc2 : c < bsize b2) by (unfold b2; rewrite S2; exact Hc).
+    assert (Nc2 : bname b2 c = dr_name rw) by (unfold b2; rewrite N2; exact Nc).
+    destruct (dr_parent rw) as [pn|] eqn:EP.
+    - destruct (b_get_or_new b2 pn []) as [b3 p] eqn:E3.
+      assert (HL' := HL pn eq_refl).
+      assert (HNp : NodeName g pn).
+      { destruct (LG _ _ HL') as [p0 [c0 [Hg [-> _]]]]. exists p0. split; [|reflexivity].
+        apply (edge_range g WF p0 c0 Hg). }
+      destruct (R_get_parent g L A (dr_name rw :: done) b2 pn b3 p R2 HNp E3) as [R3 [X3 [_ [Hp Np]]]].
+      destruct (bext_name b2 b3 c X3 Hc2) as [Nc3 Hc3].
+      assert (HL3 : In (bname b3 p, bname b3 c) L) by (rewrite Np, Nc3, Nc2; exact HL').
+      destruct (R_link g r WF RK DN L LG A _ b3 c p R3 Hc3 Hp HL3) as [b4 [E4 [R4 [X4 _]]]].
+      rewrite E4. exists b4, (Some p). split; [reflexivity|]. split; [exact R4|].
+      split; [exact (bext_trans _ _ _ X1 (bext_trans _ _ _ X2 (bext_trans _ _ _ X3 X4)))|].
+      split; [reflexivity|intros N; discriminate].
+    - exists b2, last. split; [reflexivity|]. split; [exact R2|].
+      split; [exact (bext_trans _ _ _ X1 X2)|]. split; [intros N; contradiction|reflexivity].
+  Qed.
+End DfRebuild.
+
+Section DfRebuild2.
+  Variable g : dag.
+  Variable r : id -> nat.
+  Hypothesis WF : Wf g.
+  Hypothesis RK : Ranked g r.
+  Hypothesis DN : DistinctNames g.
+  Variable L : list (str * str).
+  Hypothesis LG : forall pn cn, In (pn, cn) L -> exists p c, Edge g p c /\ pn = name g p /\ cn = name g c.
+  Variable A : str -> attrs.
+  Hypothesis AND : forall s, NoDup (map fst (A s)).
+
+  Lemma fold_row_ok : forall rows done b last,
+    RInv g L A done b ->
+    (forall rw, In rw rows -> NodeName g (dr_name rw) /\ non_null (dr_attrs rw) = A (dr_name rw)
+        /\ forall pn, dr_parent rw = Some pn -> In (pn, dr_name rw) L) ->
+    exists b' last' done', fold_left df_row_step rows (Ret (b, last)) = Ret (b', last')
+      /\ RInv g L A done' b' /\ (forall s, In s done' <-> In s done \/ In s (map dr_name rows))
+      /\ (is_some last = true -> is_some last' = true)
+      /\ ((exists rw, In rw rows /\ dr_parent rw <> None) -> is_some last' = true).
+  Proof.
+    induction rows as [|rw rows IH]; intros done b last R HC.
+    - exists b, last, done. split; [reflexivity|]. split; [exact R|]. split; [cbn; tauto|].
+      split; [tauto|intros [rw [[] _]]].
+    - cbn [fold_left]. destruct (HC rw (or_introl eq_refl)) as [C1 [C2 C3]].
+      destruct (df_row_ok g r WF RK DN L LG A AND done b last rw R C1 C2 C3) as [b1 [l1 [E1 [R1 [X1 [L1 L2]]]]]].
+      rewrite E1.
+      destruct (IH (dr_name rw :: done) b1 l1 R1 (fun x Hx => HC x (or_intror Hx)))
+        as [b' [last' [done' [E' [R' [EQ' [M1 M2]]]]]]].
+      exists b', last', done'. split; [exact E'|]. split; [exact R'|]. split.
+      + intros s. rewrite EQ'. cbn. tauto.
+      + assert (Keep : is_some last = true -> is_some l1 = true).
+        { intros Hs. destruct (dr_parent rw) eqn:EP; [apply L1; discriminate|rewrite (L2 eq_refl); exact Hs]. }
+        split; [intros Hs; apply M1, Keep, Hs|].
+        intros [x [[<-|Hx] HP]]; [apply M1, L1, HP|apply M2; exists x; split; assumption].
+  Qed.
+End DfRebuild2.
+
+Lemma find_name g y :
+  DistinctNames g -> y < dsize g -> find (fun z => str_eqb (name g z) (name g y)) (ids g) = Some y.
+Proof.
+  intros DN Hy. destruct (find (fun z => str_eqb (name g z) (name g y)) (ids g)) as [z|] eqn:E.
+  - apply find_some in E as [Hz Ez]. apply in_ids in Hz. apply str_eqb_eq in Ez.
+    f_equal. apply DN; assumption.
+  - exfalso. assert (H := find_none _ _ E y (proj2 (in_ids g y) Hy)). cbn in H.
+    rewrite str_eqb_refl in H. discriminate.
+Qed.
+
+Theorem roundtrip_df g r x md :
+  Wf g -> Ranked g r -> DistinctNames g -> WeaklyConnected g -> x < dsize g -> (exists p c, Edge g p c) ->
+  (forall y, y < dsize g -> NoDup (map fst (export_attrs md (nattrs g y)))) ->
+  exists b ret, dataframe_to_dag (dag_to_dataframe g x md) = Ret (b, Some ret)
+    /\ SameNames g (b_names b)
+    /\ NoDup (b_edges b)
+    /\ (forall pn cn, HasEdge b pn cn <-> exists p c, Edge g p c /\ pn = name g p /\ cn = name g c)
+    /\ length (b_attrs b) = bsize b
+    /\ (forall i y, i < bsize b -> y < dsize g -> bname b i = name g y ->
+          nth i (b_attrs b) [] = non_null (export_attrs md (nattrs g y))).
+Proof.
+  intros WF RK DN WC Hx HE KND.
+  assert (NL : forall y, ~ Edge g y y) by (intros y; apply (Ranked_no_loop g r y RK)).
+  set (es := dag_iterator g x).
+  set (raw := flat_map (df_rows g md) es).
+  set (rows := dag_to_dataframe g x md).
+  assert (SUB : forall rw, In rw rows -> In rw raw) by (intros rw H; eapply dd_sub; exact H).
+  assert (COV : forall rw, In rw raw -> exists rw', In rw' rows /\ row_eqb rw rw' = true).
+  { intros rw H. destruct (dd_cover raw [] rw H) as [x' [[[]|H1] H2]]. exists x'. split; assumption. }
+  set (na := fun y => non_null (export_attrs md (nattrs g y))).
+  (* F1: every row describes a node, and its parent column an edge *)
+  assert (F1 : forall rw, In rw rows -> exists y, y < dsize g /\ dr_name rw = name g y /\ dr_attrs rw = na y
+                /\ forall pn, dr_parent rw = Some pn -> exists p, Edge g p y /\ pn = name g p).
+  { intros rw H. apply SUB in H. unfold raw in H. apply in_flat_map in H as [[p c] [Hin H]].
+    assert (He : Edge g p c) by (apply (iter_sound g WF x p c Hin)).
+    destruct (edge_range g WF p c He) as [Rp Rc].
+    unfold df_rows in H. cbn [fst snd] in H. apply in_app_or in H as [H|[<-|[]]].
+    - destruct (is_root g p); [|contradiction]. destruct H as [<-|[]]. exists p. cbn.
+      split; [exact Rp|]. split; [reflexivity|]. split; [reflexivity|]. intros pn N. discriminate.
+    - exists c. cbn. split; [exact Rc|]. split; [reflexivity|]. split; [reflexivity|].
+      intros pn N. inversion N. exists p. split; [exact He|reflexivity]. }
+  (* F2: every edge has its row *)
+  assert (F2 : forall p c, Edge g p c -> exists rw, In rw rows /\ dr_name rw = name g c /\ dr_parent rw = Some (name g p)).
+  { intros p c He. assert (Hin : In (p, c) es) by (apply iter_complete; assumption).
+    assert (Hraw : In (DR (name g c) (Some (name g p)) (na c)) raw).
+    { unfold raw. apply in_flat_map. exists (p, c). split; [exact Hin|]. unfold df_rows. cbn [fst snd].
+      apply in_or_app. right. left. reflexivity. }
+    destruct (COV _ Hraw) as [rw' [H1 H2]]. apply row_eqb_key in H2 as [K1 K2]. cbn in K1, K2.
+    exists rw'. split; [exact H1|]. split; congruence. }
+  (* F3: every node has a row of its own *)
+  assert (F3 : forall y, y < dsize g -> exists rw, In rw rows /\ dr_name rw = name g y).
+  { intros y Hy. destruct (incident_edge g y WF WC HE Hy) as [p [c [He Hor]]].
+    destruct Hor as [->| ->].
+    - destruct (is_root g p) eqn:Rt.
+      + assert (Hin : In (p, c) es) by (apply iter_complete; assumption).
+        assert (Hraw : In (DR (name g p) None (na p)) raw).
+        { unfold raw. apply in_flat_map. exists (p, c). split; [exact Hin|]. unfold df_rows. cbn [fst snd].
+          rewrite Rt. apply in_or_app. left. left. reflexivity. }
+        destruct (COV _ Hraw) as [rw' [H1 H2]]. apply row_eqb_key in H2 as [K1 _]. cbn in K1.
+        exists rw'. split; [exact H1|congruence].
+      + unfold is_root in Rt. destruct (parents g p) as [|q qs] eqn:EP; [discriminate|].
+        assert (Hq : Edge g q p) by (apply (wf_sym g WF); rewrite EP; left; reflexivity).
+        destruct (F2 q p Hq) as [rw [H1 [H2 _]]]. exists rw. split; assumption.
+    - destruct (F2 p c He) as [rw [H1 [H2 _]]]. exists rw. split; assumption. }
+  set (L := df_relations rows).
+  assert (LG : forall pn cn, In (pn, cn) L -> exists p c, Edge g p c /\ pn = name g p /\ cn = name g c).
+  { intros pn cn H. unfold L, df_relations in H. apply in_flat_map in H as [rw [Hrw H]].
+    destruct (dr_parent rw) as [pn'|] eqn:EP; [|contradiction]. destruct H as [E|[]]. inversion E; subst pn' cn.
+    destruct (F1 rw Hrw) as [y [Hy [Ny [_ PP]]]]. destruct (PP pn EP) as [p [He ->]].
+    exists p, y. split; [exact He|]. split; [reflexivity|exact Ny]. }
+  assert (LE : forall p c, Edge g p c -> In (name g p, name g c) L).
+  { intros p c He. destruct (F2 p c He) as [rw [H1 [H2 H3]]]. unfold L, df_relations. apply in_flat_map.
+    exists rw. split; [exact H1|]. rewrite H3. left. rewrite H2. reflexivity. }
+  set (A := fun s => match find (fun z => str_eqb (name g z) s) (ids g) with Some y => na y | None => [] end).
+  assert (AY : forall y, y < dsize g -> A (name g y) = na y).
+  { intros y Hy. unfold A. rewrite (find_name g y DN Hy). reflexivity. }
+  assert (AND : forall s, NoDup (map fst (A s))).
+  { intros s. unfold A. destruct (find (fun z => str_eqb (name g z) s) (ids g)) as [y|] eqn:E; [|constructor].
+    apply find_some in E as [Hy _]. apply in_ids in Hy. unfold na, non_null. apply NoDup_map_filter. apply KND. exact Hy. }
+  assert (R0 : RInv g L A [] b_empty).
+  { split; [exact good_empty|]. split.
+    - split; [intros e []|intros i Hi; unfold bsize in Hi; cbn in Hi; lia].
+    - split; [reflexivity|]. split; [intros s []|intros i Hi; unfold bsize in Hi; cbn in Hi; lia]. }
+  assert (HC : forall rw, In rw rows -> NodeName g (dr_name rw) /\ non_null (dr_attrs rw) = A (dr_name rw)
+        /\ forall pn, dr_parent rw = Some pn -> In (pn, dr_name rw) L).
+  { intros rw Hrw. destruct (F1 rw Hrw) as [y [Hy [Ny [Ay PP]]]].
+    split; [exists y; split; [exact Hy|symmetry; exact Ny]|].
+    split; [rewrite Ny, (AY y Hy), Ay; unfold na; apply non_null_idem|].
+    intros pn EP. unfold L, df_relations. apply in_flat_map. exists rw. split; [exact Hrw|].
+    rewrite EP. left. reflexivity. }
+  destruct (fold_row_ok g r WF RK DN L LG A AND rows [] b_empty None R0 HC)
+    as [b [last [done' [EF [[G [Em [A1 [A2 A3]]]] [EQ [_ LS]]]]]]].
+  destruct (fold_row_spec rows b_empty None b last good_empty EF) as [_ [_ HEd]]. fold L in HEd.
+  assert (LS' : is_some last = true).
+  { apply LS. destruct HE as [p [c He]]. destruct (F2 p c He) as [rw [H1 [_ H3]]].
+    exists rw. split; [exact H1|]. rewrite H3. discriminate. }
+  destruct last as [ret|]; [|discriminate]. exists b, ret. split.
+  { unfold dataframe_to_dag. fold rows. destruct rows as [|r0 rows0] eqn:ER.
+    - exfalso. destruct HE as [p [c He]]. destruct (F2 p c He) as [rw [[] _]].
+    - assert (CONS : df_consistent (r0 :: rows0) = true).
+      { unfold df_consistent. apply forallb_forall. intros r1 H1. apply forallb_forall. intros r2 H2.
+        destruct (str_eqb (dr_name r1) (dr_name r2)) eqn:E; [|reflexivity]. cbn.
+        apply str_eqb_eq in E.
+        destruct (F1 r1 H1) as [y1 [Hy1 [N1 [At1 _]]]]. destruct (F1 r2 H2) as [y2 [Hy2 [N2 [At2 _]]]].
+        assert (y1 = y2) by (apply DN; try assumption; congruence). subst y2.
+        rewrite At1, At2. apply attrs_eqb_refl. }
+      rewrite CONS. cbn [negb]. exact EF. }
+  destruct G as [I AC]. destruct Em as [E1 E2].
+  split.
+  { split; [apply (bi_nodup_n b I)|]. intros s. split.
+    - intros Hs. apply (In_nth _ _ []) in Hs as [i [Hi Es]]. fold (bsize b) in Hi. fold (bname b i) in Es.
+      rewrite <- Es. apply E2. exact Hi.
+    - intros [y [Hy <-]]. destruct (incident_edge g y WF WC HE Hy) as [p [c [He Hor]]].
+      destruct (HEd _ (LE p c He)) as [i [j [_ [Hi [Hj [N1 N2]]]]]]. cbn in N1, N2.
+      destruct Hor as [->| ->]; [rewrite <- N1|rewrite <- N2]; apply nth_In; assumption. }
+  split; [apply (bi_nodup_e b I)|]. split.
+  { intros pn cn. split.
+    - intros [i [j [Hin [Hi [Hj [<- <-]]]]]]. apply LG. apply (E1 (i, j) Hin).
+    - intros [p [c [He [-> ->]]]]. apply (HEd (name g p, name g c)). apply LE. exact He. }
+  split; [exact A1|].
+  intros i y Hi Hy Ni. destruct (A3 i Hi) as [B1 _]. rewrite B1.
+  - rewrite Ni. apply AY. exact Hy.
+  - apply EQ. right. rewrite Ni. destruct (F3 y Hy) as [rw [H1 H2]]. rewrite <- H2. apply in_map. exact H1.
+Qed.
+
+(* ------------------------------------------------------------------------------------------- *)
+(* dag_to_dataframe: exactly one row per edge and one row per root *)
+
+Definition row_key (rw : dfrow) : str * option str := (dr_name rw, dr_parent rw).
+
+Lemma dd_key_nodup : forall l seen,
+  (forall x x', In x l -> In x' seen \/ In x' l -> row_key x = row_key x' -> row_eqb x x' = true) ->
+  NoDup (map row_key (drop_duplicates_acc seen l))
+  /\ forall x s, In x (drop_duplicates_acc seen l) -> In s seen -> row_key x <> row_key s.
+Proof.
+  induction l as [|a l IH]; intros seen H; cbn [drop_duplicates_acc].
+  - split; [constructor|intros x s []].
+  - destruct (existsb (row_eqb a) seen) eqn:E.
+    + apply IH. intros x x' Hx Hx'. apply H; [right; exact Hx|]. destruct Hx'; [left|right; right]; assumption.
+    + destruct (IH (a :: seen)) as [N1 N2].
+      { intros x x' Hx Hx'. apply H; [right; exact Hx|].
+        destruct Hx' as [[<-|Hs]|Hl]; [right; left; reflexivity|left; exact Hs|right; right; exact Hl]. }
+      split.
+      * cbn. constructor; [|exact N1]. intros Hin. apply in_map_iff in Hin as [x [Ek Hx]].
+        apply (N2 x a Hx (or_introl eq_refl)). exact Ek.
+      * intros x s [<-|Hx] Hs.
+        { intros Ek. assert (T := H a s (or_introl eq_refl) (or_introl Hs) Ek).
+          assert (F : existsb (row_eqb a) seen = true) by (apply existsb_exists; exists s; split; assumption).
+          congruence. }
+        { apply (N2 x s Hx). right. exact Hs. }
+Qed.
+
+Theorem df_rows_exact g r x md :
+  Wf g -> Ranked g r -> DistinctNames g -> WeaklyConnected g -> x < dsize g ->
+  let rows := dag_to_dataframe g x md in
+  let na := fun y => non_null (export_attrs md (nattrs g y)) in
+  NoDup (map row_key rows)
+  /\ (forall rw, In rw rows -> exists y, y < dsize g /\ dr_name rw = name g y /\ dr_attrs rw = na y
+        /\ ((dr_parent rw = None /\ parents g y = [] /\ exists c, Edge g y c)
+            \/ exists p, Edge g p y /\ dr_parent rw = Some (name g p)))
+  /\ (forall p c, Edge g p c -> exists rw, In rw rows /\ dr_name rw = name g c /\ dr_parent rw = Some (name g p))
+  /\ (forall y c, Edge g y c -> parents g y = [] ->
+        exists rw, In rw rows /\ dr_name rw = name g y /\ dr_parent rw = None).
+Proof.
+  intros WF RK DN WC Hx rows na.
+  assert (NL : forall y, ~ Edge g y y) by (intros y; apply (Ranked_no_loop g r y RK)).
+  set (es := dag_iterator g x).
+  set (raw := flat_map (df_rows g md) es).
+  assert (RAW : forall rw, In rw raw -> exists y, y < dsize g /\ dr_name rw = name g y /\ dr_attrs rw = na y
+        /\ ((dr_parent rw = None /\ parents g y = [] /\ exists c, Edge g y c)
+            \/ exists p, Edge g p y /\ dr_parent rw = Some (name g p))).
+  { intros rw H. unfold raw in H. apply in_flat_map in H as [[p c] [Hin H]].
+    assert (He : Edge g p c) by (apply (iter_sound g WF x p c Hin)).
+    destruct (edge_range g WF p c He) as [Rp Rc].
+    unfold df_rows in H. cbn [fst snd] in H. apply in_app_or in H as [H|[<-|[]]].
+    - destruct (is_root g p) eqn:Rt; [|contradiction]. destruct H as [<-|[]]. exists p. cbn.
+      split; [exact Rp|]. split; [reflexivity|]. split; [reflexivity|]. left.
+      split; [reflexivity|]. split; [|exists c; exact He].
+      unfold is_root in Rt. destruct (parents g p); [reflexivity|discriminate].
+    - exists c. cbn. split; [exact Rc|]. split; [reflexivity|]. split; [reflexivity|].
+      right. exists p. split; [exact He|reflexivity]. }
+  assert (SUB : forall rw, In rw rows -> In rw raw) by (intros rw H; eapply dd_sub; exact H).
+  assert (COV : forall rw, In rw raw -> exists rw', In rw' rows /\ row_eqb rw rw' = true).
+  { intros rw H. destruct (dd_cover raw [] rw H) as [x' [[[]|H1] H2]]. exists x'. split; assumption. }
+  split.
+  { apply (dd_key_nodup raw []). intros a b Ha [[]|Hb] Ek.
+    destruct (RAW a Ha) as [y1 [Hy1 [N1 [A1 _]]]]. destruct (RAW b Hb) as [y2 [Hy2 [N2 [A2 _]]]].
+    unfold row_key in Ek. inversion Ek as [[K1 K2]].
+    assert (y1 = y2) by (apply DN; try assumption; congruence). subst y2.
+    unfold row_eqb. rewrite K1, K2, A1, A2, str_eqb_refl, attrs_eqb_refl.
+    destruct (dr_parent b); cbn; [rewrite str_eqb_refl|]; reflexivity. }
+  split; [intros rw H; apply RAW, SUB, H|]. split.
+  - intros p c He. assert (Hin : In (p, c) es) by (apply iter_complete; assumption).
+    assert (Hraw : In (DR (name g c) (Some (name g p)) (na c)) raw).
+    { unfold raw. apply in_flat_map. exists (p, c). split; [exact Hin|]. unfold df_rows. cbn [fst snd].
+      apply in_or_app. right. left. reflexivity. }
+    destruct (COV _ Hraw) as [rw' [H1 H2]]. apply row_eqb_key in H2 as [K1 K2]. cbn in K1, K2.
+    exists rw'. split; [exact H1|]. split; congruence.
+  - intros y c He Rt. assert (Hin : In (y, c) es) by (apply iter_complete; assumption).
+    assert (Hraw : In (DR (name g y) None (na y)) raw).
+    { unfold raw. apply in_flat_map. exists (y, c). split; [exact Hin|]. unfold df_rows. cbn [fst snd].
+      unfold is_root. rewrite Rt. apply in_or_app. left. left. reflexivity. }
+    destruct (COV _ Hraw) as [rw' [H1 H2]]. apply row_eqb_key in H2 as [K1 K2]. cbn in K1, K2.
+    exists rw'. split; [exact H1|]. split; congruence.
+Qed.
+
+(* ------------------------------------------------------------------------------------------- *)
+(* `Ranked` is acyclicity: on a non-empty consistent link structure a bounded topological numbering
+   exists exactly when no node reaches itself (the number of ancestors is such a numbering) *)
+
+Lemma NoDup_strict_incl_length {A} (l l' : list A) x :
+  NoDup l -> incl l l' -> In x l' -> ~ In x l -> length l < length l'.
+Proof.
+  intros ND HI Hx Hn.
+  assert (ND' : NoDup (x :: l)) by (constructor; assumption).
+  assert (HI' : incl (x :: l) l') by (intros y [<-|Hy]; [exact Hx|apply HI; exact Hy]).
+  apply (NoDup_incl_length ND') in HI'. cbn in HI'. lia.
+Qed.
+
+Theorem acyclic_iff_ranked g :
+  Wf g -> 0 < dsize g -> ((forall y, ~ Reach g y y) <-> exists r, Ranked g r).
+Proof.
+  intros WF Hn. split.
+  - intros AC. exists (fun x => length (ancestors g x)). split.
+    + intros p c He.
+      apply (NoDup_strict_incl_length (ancestors g p) (ancestors g c) p).
+      * apply dedup_NoDup.
+      * intros a Ha. apply (ancestors_sound g WF) in Ha.
+        apply (ancestors_complete g WF c a AC). eapply Reach_snoc; eauto.
+      * apply (ancestors_complete g WF c p AC). apply Reach1. exact He.
+      * intros Hin. apply (ancestors_sound g WF) in Hin. exact (AC p Hin).
+    + intros x. destruct (Nat.lt_ge_cases x (dsize g)) as [Hx|Hx].
+      * assert (L : length (ancestors g x) < length (ids g)).
+        { apply (NoDup_strict_incl_length (ancestors g x) (ids g) x).
+          - apply dedup_NoDup.
+          - intros a Ha. apply (ancestors_sound g WF) in Ha. apply in_ids.
+            inversion Ha as [? ? He|? ? ? He _]; subst; apply (edge_range g WF _ _ He).
+          - apply in_ids. exact Hx.
+          - intros Hin. apply (ancestors_sound g WF) in Hin. exact (AC x Hin). }
+        unfold ids in L. rewrite seq_length in L. exact L.
+      * assert (E : ancestors g x = []).
+        { unfold ancestors. destruct (dsize g) as [|f] eqn:EN; [lia|]. cbn [anc_raw].
+          destruct (out_of_range g x) as [EP _]; [lia|]. rewrite EP. reflexivity. }
+        rewrite E. exact Hn.
+  - intros [r RK] y. apply (Ranked_irrefl g r y RK).
+Qed.
